@@ -18,7 +18,8 @@ EXPLANATION = (
     "live name, replace_task re-registers only in the old task's done-callback, shutdown flag before cancellation); "
     "Overlay.unload removes the listener before shutting tasks down; _deliver_later re-checks registration; an entry a removal takes out of a "
     "table of open resources is closed without suspending in between (unload only sees what is still in the table), and an entry taken out of a "
-    "table of TaskManager objects has its task manager shut down on every normal path; the low-level runners await "
+    "table of TaskManager objects has its task manager shut down on every normal path - and what is shut down is the entry that was taken out, not an "
+    "object looked up before a suspension; the low-level runners await "
     "the scheduled step itself and nothing in task-manager code is shielded from cancellation. "
     "'At whatever moment' (schedules) is not explored beyond these orderings."
 )
@@ -46,12 +47,18 @@ def _enumerated_table(fi: FuncInfo, it: ast.AST) -> tuple[str | None, bool, str]
     """
     it = resolve(fi, it)
     snap = False
-    if isinstance(it, ast.Call) and isinstance(it.func, ast.Name) and it.func.id in _SNAPSHOT_CTORS and len(it.args) == 1:
-        snap, it = True, resolve(fi, it.args[0])
-    elif isinstance(it, (ast.List, ast.Tuple)) and len(it.elts) == 1 and isinstance(it.elts[0], ast.Starred):
-        snap, it = True, resolve(fi, it.elts[0].value)
-    if isinstance(it, ast.Call) and isinstance(it.func, ast.Attribute) and it.func.attr == "copy" and not it.args:
-        snap, it = True, resolve(fi, it.func.value)
+    for _ in range(4):
+        # wrappers that enumerate the same elements: copies (a snapshot), reversed() / iter() (a view, in another order)
+        if isinstance(it, ast.Call) and isinstance(it.func, ast.Name) and it.func.id in _SNAPSHOT_CTORS and len(it.args) == 1 and not it.keywords:
+            snap, it = True, resolve(fi, it.args[0])
+        elif isinstance(it, ast.Call) and isinstance(it.func, ast.Name) and it.func.id in ("reversed", "iter") and len(it.args) == 1 and not it.keywords:
+            it = resolve(fi, it.args[0])
+        elif isinstance(it, (ast.List, ast.Tuple)) and len(it.elts) == 1 and isinstance(it.elts[0], ast.Starred):
+            snap, it = True, resolve(fi, it.elts[0].value)
+        elif isinstance(it, ast.Call) and isinstance(it.func, ast.Attribute) and it.func.attr == "copy" and not it.args:
+            snap, it = True, resolve(fi, it.func.value)
+        else:
+            break
     kind = "keys"
     if isinstance(it, ast.Call) and isinstance(it.func, ast.Attribute) and it.func.attr in ("keys", "items") and not it.args:
         kind, it = it.func.attr, it.func.value
@@ -99,7 +106,7 @@ def _called_for_every_key(fi: FuncInfo, call: ast.Call, key: ast.AST | None, tab
                 tab, snap, kind = _enumerated_table(fi, g.iter)
                 if tab == table and _loop_var(g.target, kind) == key.id:
                     unfiltered = not any(gg.ifs or gg.is_async for gg in a.generators)
-                    consumed = not isinstance(a, ast.GeneratorExp) or isinstance(parent(a), (ast.Call, ast.Starred))   # a lazy generator calls nothing until consumed
+                    consumed = not isinstance(a, ast.GeneratorExp) or isinstance(parent(a), (ast.Call, ast.Starred)) or _drained_by_loop(a)   # a lazy generator calls nothing until consumed
                     in_elt = not any(cur is gg.iter for gg in a.generators)
                     return unfiltered and consumed and in_elt and not conditional and (snap or not need_snapshot)
             conditional = conditional or any(gg.ifs for gg in a.generators)
@@ -111,6 +118,12 @@ def _called_for_every_key(fi: FuncInfo, call: ast.Call, key: ast.AST | None, tab
             conditional = True
         cur = a
     return False
+
+
+def _drained_by_loop(it: ast.AST) -> bool:
+    """the lazy iterable `it` is what a for-statement iterates over, and that loop always runs to the end (no break / return / raise in its body)"""
+    p = parent(it)
+    return isinstance(p, ast.For) and p.iter is it and not any(isinstance(x, (ast.Break, ast.Return, ast.Raise)) for s in p.body for x in walk_no_nested(s))
 
 
 def _calls_with_lambdas(fi: FuncInfo, pattern=None) -> list[ast.Call]:
@@ -135,8 +148,15 @@ def _consumed_unconditionally(it: ast.AST) -> bool:
             break
         if isinstance(a, ast.Starred) and a.value is cur:
             used = True
-        elif isinstance(a, ast.Call) and cur in a.args and (chain(a.func) in ("list", "tuple", "set", "sorted") or call_name(a) in ("extend", "gather", "wait", "update")):
+        elif isinstance(a, ast.Call) and cur in a.args and (chain(a.func) in ("list", "tuple", "set", "sorted", "frozenset", "dict") or
+                                                            call_name(a) in ("extend", "gather", "wait", "update")):
             used = True
+        elif isinstance(a, ast.Call) and a.args and a.args[0] is cur and call_name(a) == "deque" and const_value(arg(a, 1, "maxlen")) == 0:
+            used = True                 # deque(it, maxlen=0): the idiom for running an iterator to its end
+        elif isinstance(a, ast.For) and a.iter is cur and _drained_by_loop(cur):
+            used = True
+            cur = a
+            continue
         elif isinstance(a, (ast.If, ast.IfExp, ast.While, ast.For, ast.AsyncFor, ast.Match, ast.ExceptHandler, *_COMPREHENSIONS)):
             return False
         elif isinstance(a, ast.BoolOp) and a.values[0] is not cur:
@@ -232,14 +252,33 @@ def _value_flow(fi: FuncInfo, k: ast.Call) -> tuple[bool, set[str], list[ast.AST
     return awaited, names, holders
 
 
-def _awaits_of_collections(fi: FuncInfo, names: set[str]) -> list[ast.AST]:
-    """Sites that wait for every element of one of the local collections: awaited gather/wait over it, or `for x in coll: await x`."""
+def _awaits_of_collections(fi: FuncInfo, names: set[str], ctx: Ctx | None = None, _depth: int = 0) -> list[ast.AST]:
+    """Sites that wait for every element of one of the local collections: awaited gather/wait over it, `for x in coll: await x`, or (with ctx) an awaited
+    coroutine of the same object that does one of these to the parameter it receives the collection in, on every normal path on which it is not empty."""
     out: list[ast.AST] = []
     if not names:
         return out
     for g in calls(fi):
         if call_name(g) in ("gather", "wait") and _awaited(g) and any(_carries(a, names) for a in g.args):
             out.append(g)
+        elif ctx is not None and _depth < 2 and _awaited(g) and any(_carries(a, names) for a in [*g.args, *[k.value for k in g.keywords]]):
+            ts = _helper_targets(ctx, fi, g)
+            ok = bool(ts)
+            for t in ts:
+                ps = {p for p, a in _simple_binding(t, g).items() if _carries(a, names)}
+                tv = U(ctx, t)
+                inner = _awaits_of_collections(tv, ps, ctx, _depth + 1) if ps and len(local_defs(tv, next(iter(ps)))) == 0 else []
+                cfg = ctx.cfg(tv)
+
+                def empty(f, ps=ps):
+                    # the collection is not empty (an empty one needs no waiting)
+                    if f.op == "truthy" and chain(f.left) in ps:
+                        return True
+                    return None
+                fe = _Feas(ctx, tv, empty)
+                ok = ok and bool(inner) and cfg.exit not in fe.explore(cut_nodes=[n for i in inner for n in cfg.nodes_for(i)], follow_exc=False)
+            if ok:
+                out.append(g)
     for n in walk_no_nested(fi.node):
         if isinstance(n, ast.Await) and isinstance(n.value, ast.Name) and n.value.id in names:
             out.append(n)
@@ -269,6 +308,21 @@ def _nonempty_test(test: ast.AST, coll: str) -> bool:
     return False
 
 
+def _empty_test(test: ast.AST, coll: str) -> bool:
+    """`len(coll) == 0` / `coll == []` / `len(coll) < 1`"""
+    def is_len(e):
+        return isinstance(e, ast.Call) and chain(e.func) == "len" and len(e.args) == 1 and chain(e.args[0]) == coll
+    if isinstance(test, ast.Compare) and len(test.ops) == 1:
+        l, op, r = test.left, test.ops[0], test.comparators[0]
+        if is_len(l) and ((const_value(r) == 0 and isinstance(op, (ast.Eq, ast.LtE))) or (const_value(r) == 1 and isinstance(op, ast.Lt))):
+            return True
+        if is_len(r) and const_value(l) == 0 and isinstance(op, (ast.Eq, ast.GtE)):
+            return True
+        if chain(l) == coll and isinstance(op, ast.Eq) and isinstance(r, (ast.List, ast.Tuple)) and not r.elts:
+            return True
+    return False
+
+
 def _unloads_every_bootstrapper(fi: FuncInfo, call: ast.Call, coll: str = "self.bootstrappers") -> bool:
     """`call` (= <x>.unload()) is made for every element of coll: drain loop `while coll: coll.pop().unload()` or a loop over coll."""
     recv = call.func.value
@@ -282,8 +336,16 @@ def _unloads_every_bootstrapper(fi: FuncInfo, call: ast.Call, coll: str = "self.
         if isinstance(a, (ast.FunctionDef, ast.AsyncFunctionDef, ast.Lambda)):
             return False
         if isinstance(a, ast.While):
-            return _nonempty_test(a.test, coll) and any(cur is s for s in a.body) and \
-                not any(isinstance(x, _LOOP_ESCAPES) for s in a.body for x in walk_no_nested(s))
+            escapes = [x for s in a.body for x in walk_no_nested(s) if isinstance(x, _LOOP_ESCAPES)]
+            if _nonempty_test(a.test, coll):
+                return any(cur is s for s in a.body) and not escapes
+            if const_value(a.test) in (True, 1) and not a.orelse:
+                # `while True: try: x = coll.pop() except IndexError: break ...`: drained until the pop fails on the empty collection - the only way out
+                tr = next((t for t in ancestors(r) if isinstance(t, ast.Try)), None)
+                return any(cur is s for s in a.body) and tr is not None and any(tr is s for s in a.body) and len(tr.handlers) == 1 and not tr.finalbody \
+                    and (chain(tr.handlers[0].type) or "") in ("IndexError", "LookupError") and len(tr.handlers[0].body) == 1 \
+                    and isinstance(tr.handlers[0].body[0], ast.Break) and escapes == [tr.handlers[0].body[0]]
+            return False
         if isinstance(a, (ast.If, ast.IfExp, ast.For, ast.AsyncFor, ast.Match, ast.ExceptHandler, *_COMPREHENSIONS)):
             return False
         if isinstance(a, ast.BoolOp) and a.values[0] is not cur:
@@ -300,6 +362,8 @@ _TRUE, _FALSE = ("k", True), ("k", False)
 _ANY = frozenset({_NONE, "F", "T"})
 _BOOL = frozenset({_TRUE, _FALSE})
 _OBJ = frozenset({"F", "T"})
+_KEY_RAISED = frozenset({("k", "KeyError")})
+_NO_KEY_RAISED = frozenset({("k", "not a KeyError")})
 _PURE_BOOL_CALLS = {"isinstance", "issubclass", "callable", "hasattr", "any", "all", "iscoroutinefunction", "iscoroutine", "isfuture"}
 _OBJ_CALLS = {"len", "int", "str", "list", "tuple", "dict", "set", "frozenset", "sorted", "repr", "float", "bytes", "range", "enumerate", "zip", "map",
               "iter", "id", "hash", "type", "reversed", "min", "max", "sum", "abs", "round", "hexlify", "unhexlify"}
@@ -313,7 +377,87 @@ def _is_true(x) -> bool:
         return False
     if x[0] == "k":
         return bool(x[1])
+    if x[0] == "r":
+        return True               # a dataclass instance (record classes that define __bool__ / __len__ are not modelled as records)
     return len(x[1]) > 0
+
+
+class _Member:
+    """A named constant object: a member of a plain Enum, or a module-level `NAME = object()` sentinel.  Equal only to itself, always truthy."""
+
+    __slots__ = ("owner", "key")
+
+    def __init__(self, owner: str, key) -> None:
+        self.owner, self.key = owner, key
+
+    def __eq__(self, other) -> bool:
+        return isinstance(other, _Member) and (self.owner, self.key) == (other.owner, other.key)
+
+    def __hash__(self) -> int:
+        return hash((self.owner, self.key))
+
+    def __bool__(self) -> bool:
+        return True
+
+    def __repr__(self) -> str:
+        return f"<{self.owner}.{self.key}>"
+
+
+_ENUM_BASES = {"Enum", "IntEnum", "StrEnum", "Flag", "IntFlag", "ReprEnum"}
+_ENUM_MIXED = {"IntEnum", "StrEnum", "Flag", "IntFlag", "int", "str", "bytes", "float"}
+
+
+def _is_record_value(x) -> bool:
+    return isinstance(x, tuple) and len(x) == 3 and x[0] in ("t", "r")
+
+
+def _record_fields(ctx: Ctx, cls: ClassInfo) -> tuple[str, list[tuple[str, ast.AST | None]]] | None:
+    """
+    ('t' | 'r', [(field, default expr | None), ..]) when constructing cls only stores its arguments: a NamedTuple ('t': also a tuple), a
+    @dataclass, or a plain class whose __init__ does nothing but `self.<field> = <parameter>`; None for every other class.
+    """
+    memo = getattr(ctx, "_c11_records", None)
+    if memo is None:
+        memo = ctx._c11_records = {}     # noqa: SLF001
+    k = id(cls.node)
+    if k in memo:
+        return memo[k]
+    memo[k] = None
+    if cls.lookup("__bool__") or cls.lookup("__len__") or cls.lookup("__new__") or cls.lookup("__eq__") or cls.lookup("__post_init__"):
+        return None
+    decs = {(chain(d.func) if isinstance(d, ast.Call) else chain(d)) or "" for d in cls.node.decorator_list}
+    is_dc = any(d.rsplit(".", 1)[-1] == "dataclass" for d in decs)
+    is_nt = "NamedTuple" in cls.base_names
+    if (is_dc or is_nt) and not cls.bases and set(cls.base_names) <= {"NamedTuple", "object"} and cls.lookup("__init__") is None:
+        fields = [(st.target.id, st.value) for st in cls.node.body if isinstance(st, ast.AnnAssign) and isinstance(st.target, ast.Name)
+                  and "ClassVar" not in norm(st.annotation)]
+        if fields:
+            memo[k] = ("t" if is_nt else "r", fields)
+        return memo[k]
+    init = cls.methods.get("__init__")
+    if init is None or cls.bases or not set(cls.base_names) <= {"object"} or decs or init.node.args.vararg or init.node.args.kwarg \
+            or init.node.args.kwonlyargs or init.decorator_names():
+        return None
+    ps = init.params()
+    defaults = dict(zip(ps[len(ps) - len(init.node.args.defaults):], init.node.args.defaults))
+    fields = []
+    for st in init.node.body:
+        if isinstance(st, ast.Expr) and isinstance(st.value, ast.Constant):
+            continue
+        tgt = st.targets[0] if isinstance(st, ast.Assign) and len(st.targets) == 1 else st.target if isinstance(st, ast.AnnAssign) else None
+        val = getattr(st, "value", None)
+        if not (isinstance(tgt, ast.Attribute) and chain(tgt.value) == ps[0] and isinstance(val, ast.Name) and val.id in ps[1:]):
+            return None
+        fields.append((tgt.attr, val.id))
+    if [p for _, p in fields] != ps[1:]:
+        return None                      # every parameter is stored exactly once, in order
+    # ... and no method of the class rebinds a field afterwards
+    for m in cls.methods.values():
+        if m is not init and any(isinstance(x, ast.Attribute) and isinstance(x.ctx, (ast.Store, ast.Del)) and x.attr in {f for f, _ in fields}
+                                 for x in ast.walk(m.node)):
+            return None
+    memo[k] = ("r", [(f, defaults.get(p)) for f, p in fields])
+    return memo[k]
 
 
 def _known(vs) -> bool:
@@ -322,6 +466,98 @@ def _known(vs) -> bool:
 
 def _bools(outcomes) -> frozenset:
     return frozenset(_TRUE if o else _FALSE for o in outcomes)
+
+
+def _const_abs(v):
+    if v is NOCONST:
+        return None
+    try:
+        hash(v)
+    except TypeError:
+        return None
+    return frozenset({("k", v)})
+
+
+def _rebound_attrs(ctx: Ctx) -> set[str]:
+    """attribute names that are assigned / deleted through an attribute target anywhere in the repository (`x.attr = ..`)"""
+    s = getattr(ctx, "_c11_rebound", None)
+    if s is None:
+        s = ctx._c11_rebound = {n.attr for m in ctx.repo.modules.values() for n in ast.walk(m.tree)       # noqa: SLF001
+                                if isinstance(n, ast.Attribute) and isinstance(n.ctx, (ast.Store, ast.Del))}
+    return s
+
+
+def _rebound_outside_self(ctx: Ctx) -> set[str]:
+    """attribute names that are assigned through something other than `self` somewhere (`other._shutdown = ..`)"""
+    s = getattr(ctx, "_c11_rebound_other", None)
+    if s is None:
+        s = ctx._c11_rebound_other = {n.attr for m in ctx.repo.modules.values() for n in ast.walk(m.tree)       # noqa: SLF001
+                                      if isinstance(n, ast.Attribute) and isinstance(n.ctx, (ast.Store, ast.Del)) and chain(n.value) != "self"}
+    return s
+
+
+def _module_binds_once(ctx: Ctx, mod, name: str) -> bool:
+    memo = getattr(ctx, "_c11_modbinds", None)
+    if memo is None:
+        memo = ctx._c11_modbinds = {}    # noqa: SLF001
+    k = (id(mod), name)
+    if k not in memo:
+        n = sum(1 for x in ast.walk(mod.tree) if isinstance(x, ast.Name) and x.id == name and isinstance(x.ctx, (ast.Store, ast.Del)))
+        g = any(isinstance(x, ast.Global) and name in x.names for x in ast.walk(mod.tree))
+        memo[k] = n == 1 and not g
+    return memo[k]
+
+
+def _static_value(ctx: Ctx, fi: FuncInfo, e: ast.AST):
+    """
+    The abstract value of a name / attribute that denotes a constant of the program: a module-level constant (`_REFUSED = "refused"`,
+    `_NOTHING = object()`), a member of an Enum (`_Admission.CLOSED`), a class-level constant (`Cls.LIMIT`, `self.LIMIT` when no instance
+    attribute of that name is ever assigned).  None when e is anything else.
+    """
+    repo = ctx.repo
+    if isinstance(e, ast.Name):
+        if e.id in fi.params() or local_defs(fi, e.id):
+            return None
+        r = repo.resolve_name(fi.module, e.id)
+        if not (isinstance(r, tuple) and r[0] == "const") or not _module_binds_once(ctx, r[1], e.id):
+            return None
+        ex = strip_cast(r[2])
+        if isinstance(ex, ast.Call) and chain(ex.func) == "object" and not ex.args and not ex.keywords:
+            return frozenset({("k", _Member(r[1].relpath, e.id))})
+        return _const_abs(repo.resolve_const(fi.module, e))
+    if not isinstance(e, ast.Attribute):
+        return None
+    via_self = isinstance(e.value, ast.Name) and e.value.id in ("self", "cls")
+    c = fi.cls if via_self else repo.resolve_class_expr(fi.module, e.value)
+    if c is None or e.attr in _rebound_attrs(ctx):
+        return None
+    if c.lookup_attr(e.attr) is None:
+        # `_OPEN, _CLOSED = "open", "closed"` at class level (the model records single-name class attributes only)
+        for k in c.mro():
+            for st in k.node.body:
+                if isinstance(st, ast.Assign) and len(st.targets) == 1 and isinstance(st.targets[0], ast.Tuple) and isinstance(st.value, ast.Tuple) \
+                        and len(st.targets[0].elts) == len(st.value.elts):
+                    for tg, v in zip(st.targets[0].elts, st.value.elts):
+                        if isinstance(tg, ast.Name) and tg.id == e.attr and not (via_self and any(e.attr in kk.attrs for kk in c.all_subclasses())) \
+                                and not any(e.attr in kk.attrs or e.attr in kk.methods for kk in c.mro()):
+                            return _const_abs(repo.resolve_const(k.module, v, k))
+        return None
+    owner = next(k for k in c.mro() if e.attr in k.attrs)
+    bases = {b.rsplit(".", 1)[-1] for b in c.all_base_names()}
+    if bases & _ENUM_BASES:
+        if via_self or c.lookup("__bool__") or c.lookup("__eq__") or c.lookup("_missing_"):
+            return None
+        if bases & _ENUM_MIXED:
+            return _const_abs(repo.resolve_const(owner.module, owner.attrs[e.attr], owner)) or _OBJ
+        v = repo.resolve_const(owner.module, owner.attrs[e.attr], owner)
+        try:
+            hash(v)
+        except TypeError:
+            v = NOCONST
+        return frozenset({("k", _Member(owner.name, ("n", e.attr) if v is NOCONST else ("v", v)))})
+    if via_self and any(e.attr in k.attrs for k in c.all_subclasses()):
+        return None                       # a subclass may override the class-level constant
+    return _const_abs(repo.resolve_const(owner.module, owner.attrs[e.attr], owner))
 
 
 class _Feas:
@@ -381,7 +617,85 @@ class _Feas:
         self.seen = seen
         return seen
 
-    def _step(self, node, env: dict, follow_exc: bool) -> list:
+    # ------------------------------------------------------------ key lookups that raise / cannot raise under the assumption
+    _KEY_ERRORS = ("KeyError", "LookupError", "Exception", "BaseException")
+    _QUIET_METHODS = ("done", "cancelled", "cancel", "is_set", "get", "items", "keys", "values")
+
+    def _lookups(self, node) -> tuple[list, list, bool]:
+        """(subscript reads evaluated whenever the node is, all subscript reads, nothing else in the node can raise KeyError)"""
+        memo = self.__dict__.setdefault("_lk", {})
+        if id(node) in memo:
+            return memo[id(node)]
+        a = node.ast
+        eager: list = []
+        every: list = []
+        clean = True
+        if isinstance(a, (ast.expr, ast.Assign, ast.AnnAssign, ast.AugAssign, ast.Expr, ast.Return, ast.Delete)):
+            from ..cfg import call_may_raise
+            for x in walk_no_nested(a):
+                if isinstance(x, ast.Subscript) and isinstance(x.ctx, (ast.Load, ast.Del)):
+                    every.append(x)
+                    lazy = False
+                    cur = x
+                    for p in ancestors(x):
+                        if (isinstance(p, ast.BoolOp) and p.values[0] is not cur) or (isinstance(p, ast.IfExp) and p.test is not cur) or \
+                                isinstance(p, (ast.Lambda, *_COMPREHENSIONS)):
+                            lazy = True
+                        if p is a:
+                            break
+                        cur = p
+                    if not lazy:
+                        eager.append(x)
+                elif isinstance(x, ast.Call) and call_may_raise(x) and not (isinstance(x.func, ast.Attribute) and x.func.attr in self._QUIET_METHODS):
+                    clean = False
+                elif isinstance(x, (ast.Await, ast.Yield, ast.YieldFrom, ast.Lambda, *_COMPREHENSIONS)):
+                    clean = False
+        memo[id(node)] = (eager, every, clean)
+        return memo[id(node)]
+
+    def _present(self, sub: ast.Subscript):
+        """True / False when the assumption says the key of the lookup `M[k]` is / is not in M, else None"""
+        cmp = ast.Compare(left=clone(sub.slice), ops=[ast.In()], comparators=[clone(sub.value)])
+        return self.assume(fact_of(self._root(cmp), True))
+
+    def _catches_key_error(self, h: ast.ExceptHandler) -> bool:
+        if h.type is None:
+            return True
+        return any((chain(t) or "").rsplit(".", 1)[-1] in self._KEY_ERRORS for t in (h.type.elts if isinstance(h.type, ast.Tuple) else [h.type]))
+
+    def _only_key_errors(self, h: ast.ExceptHandler) -> bool:
+        return h.type is not None and all((chain(t) or "").rsplit(".", 1)[-1] in ("KeyError", "LookupError")
+                                          for t in (h.type.elts if isinstance(h.type, ast.Tuple) else [h.type]))
+
+    def _step(self, node, env: dict, follow_exc: bool) -> list:  # noqa: C901, PLR0912
+        a = node.ast
+        out = []
+        raised = env.get("$raised")
+        if raised is not None:
+            env = {k: v for k, v in env.items() if k != "$raised"}
+            if node.kind == "dispatch":
+                handlers = [(nxt, lab) for nxt, lab in node.succ if nxt.kind == "handler"]
+                others = [(nxt, lab) for nxt, lab in node.succ if nxt.kind != "handler"]
+                if raised == _KEY_RAISED:
+                    # a KeyError raised by a lookup that the assumption says fails: it runs the first handler that catches it - ordinary control flow
+                    for nxt, _ in handlers:
+                        if self._catches_key_error(nxt.ast):
+                            return [(nxt, env)]
+                    return [(nxt, {**env, "$raised": raised}) for nxt, _ in others]
+                # an exception that is not a KeyError: handlers for KeyError / LookupError only do not run
+                return [(nxt, env) for nxt, _ in handlers if not self._only_key_errors(nxt.ast)] + [(nxt, {**env, "$raised": raised}) for nxt, _ in others]
+        if node.kind in ("cond", "stmt") and a is not None:
+            eager, every, clean = self._lookups(node)
+            if every:
+                if any(self._present(x) is False for x in eager):
+                    # the lookup raises KeyError: the node never completes normally
+                    return [(nxt, {**env, "$raised": _KEY_RAISED}) for nxt, lab in node.succ if lab == "exc"]
+                if follow_exc and clean and all(self._present(x) is True for x in every):
+                    exc = [(nxt, {**env, "$raised": _NO_KEY_RAISED}) for nxt, lab in node.succ if lab == "exc"]
+                    return [*exc, *[(n2, e2) for n2, e2 in self._step_plain(node, env, False)]]
+        return self._step_plain(node, env, follow_exc)
+
+    def _step_plain(self, node, env: dict, follow_exc: bool) -> list:
         a = node.ast
         out = []
         if node.kind == "cond":
@@ -521,6 +835,12 @@ class _Feas:
                     if d is not None and d[1] is None and _pure_read(d[0]):
                         self.budget -= 1
                         return self.visit(clone(strip_cast(d[0])))
+                    if d is not None and d[1] is None and isinstance(strip_cast(d[0]), ast.Call) and not any(isinstance(x, (ast.Await, ast.NamedExpr, ast.Lambda)) for x in ast.walk(d[0])):
+                        # a getter whose result the assumption speaks about (`live = self.get_task(name)`): the local stands for that lookup
+                        self.budget -= 1
+                        rv = self.visit(clone(strip_cast(d[0])))
+                        if fe.assume(fact_of(rv, True)) is not None:
+                            return rv
                 if fe.depth and (n.id in fe.stored or n.id in fe.params):
                     return ast.Name(id=f"{n.id}@{fe.fi.name}", ctx=ast.Load())
                 return n
@@ -535,9 +855,33 @@ class _Feas:
         if v is None:
             return _BOOL if kind == "bool" else _ANY
         truth = bool(v) if f.pos else not v
-        if kind == "bool":
+        if kind == "bool" or self._bool_flag(e):
             return frozenset({_TRUE if truth else _FALSE})
         return frozenset({"T"}) if truth else frozenset({_NONE, "F"})
+
+    def _bool_flag(self, e: ast.AST) -> bool:
+        """e is `self.<flag>` and every assignment to that attribute in the class family stores True / False: its value IS a bool (so `flag is True` is decided by its truth)"""
+        e = strip_cast(e)
+        if not (isinstance(e, ast.Attribute) and chain(e.value) == "self" and self.fi.cls is not None):
+            return False
+        memo = self.ctx.__dict__.setdefault("_c11_boolflags", {})
+        k = (id(self.fi.cls.node), e.attr)
+        if k not in memo:
+            vals = [_stored_value(st, t) for c in [*self.fi.cls.mro(), *self.fi.cls.all_subclasses()] for m in c.methods.values() for st, t in stores(m, f"self.{e.attr}")
+                    if not isinstance(st, ast.Delete)]
+            memo[k] = bool(vals) and all(isinstance(const_value(v), bool) for v in vals if v is not None) and all(v is not None for v in vals) \
+                and e.attr not in _rebound_outside_self(self.ctx)
+        return memo[k]
+
+    def _returns_bool(self, e: ast.Call) -> bool:
+        """the call goes to repository functions that are all annotated `-> bool`"""
+        if not (isinstance(e.func, ast.Attribute) and chain(e.func.value) in ("self", "cls")) and not isinstance(e.func, ast.Name):
+            return False
+        try:
+            ts = self.repo.resolve_call(self.fi, e)
+        except Exception:  # noqa: BLE001
+            return False
+        return bool(ts) and all(t.node.returns is not None and norm(t.node.returns) in ("bool", "'bool'") and not t.is_async for t in ts)
 
     def ev(self, e: ast.AST | None, env: dict):  # noqa: C901, PLR0911, PLR0912
         if e is None:
@@ -556,7 +900,12 @@ class _Feas:
                 return _ANY
             if e.id in ("True", "False", "None"):
                 return frozenset({("k", {"True": True, "False": False, "None": None}[e.id])})
-            return self._atom(e, "any")
+            a = self._atom(e, "any")
+            if a == _ANY and e.id not in self.params:
+                s = _static_value(self.ctx, self.fi, e)
+                if s is not None:
+                    return s
+            return a
         if isinstance(e, ast.NamedExpr):
             v = self.ev(e.value, env)
             self._set(env, e.target.id, v)
@@ -623,8 +972,31 @@ class _Feas:
             self._forget_walrus(e, env)
             return _OBJ
         if isinstance(e, (ast.Attribute, ast.Subscript)):
+            a = self._atom(e, "any")
+            if a != _ANY:
+                self._forget_walrus(e, env)
+                return a
+            if isinstance(e, ast.Attribute):
+                s = _static_value(self.ctx, self.fi, e)
+                if s is not None:
+                    return s
+            # a field of a result object (NamedTuple / dataclass / plain record class) held in a local or returned by a helper
+            base = strip_cast(e.value)
+            if isinstance(base, ast.Await):
+                base = strip_cast(base.value) if isinstance(strip_cast(base.value), ast.Call) else base
+            if (isinstance(base, ast.Name) and base.id in env) or (isinstance(base, ast.Call) and (
+                    isinstance(base.func, ast.Name) or chain(getattr(base.func, "value", None)) in ("self", "cls"))):
+                bv = self.ev(e.value, env)
+                if isinstance(e, ast.Attribute):
+                    if bv and all(_is_record_value(x) and e.attr in x[2][1] for x in bv):
+                        return frozenset().union(*[x[1][x[2][1].index(e.attr)] for x in bv])
+                else:
+                    i = const_value(e.slice)
+                    if isinstance(i, int) and not isinstance(i, bool) and bv and all(isinstance(x, tuple) and x[0] == "t" and -len(x[1]) <= i < len(x[1]) for x in bv):
+                        return frozenset().union(*[x[1][i] for x in bv])
+                return _ANY
             self._forget_walrus(e, env)
-            return self._atom(e, "any")
+            return _ANY
         self._forget_walrus(e, env)
         return _ANY
 
@@ -639,6 +1011,15 @@ class _Feas:
             self._forget_walrus(e, env)
             return frozenset({_TRUE if (bool(decided) if f.pos else not decided) else _FALSE})
         if isinstance(op, (ast.Is, ast.IsNot, ast.Eq, ast.NotEq)):
+            for a, b in ((l, r), (r, l)):
+                # `flag is True` / `flag == False` (e.g. from `case (True, _):`) about an atom whose truth is assumed: a flag compared with a bool is a bool
+                c = const_value(b)
+                if isinstance(c, bool) and not isinstance(strip_cast(a), (ast.NamedExpr, ast.Constant)) and not (isinstance(strip_cast(a), ast.Name) and strip_cast(a).id in self.tracked):
+                    f = fact_of(self._root(a), True)
+                    v = self.assume(f) if f.op == "truthy" else None
+                    if v is not None:
+                        self._forget_walrus(e, env)
+                        return frozenset({_TRUE if ((bool(v) == c) == isinstance(op, (ast.Is, ast.Eq))) else _FALSE})
             lv, rv = self.ev(l, env), self.ev(r, env)
             pos = isinstance(op, (ast.Is, ast.Eq))
             for a, b in ((lv, rv), (rv, lv)):
@@ -725,10 +1106,16 @@ class _Feas:
         v = self.assume(f)
         if v is not None:
             self._forget_walrus(e, env)
+            if self._returns_bool(e):
+                return frozenset({_TRUE if v else _FALSE})
             return frozenset({"T"}) if v else frozenset({_NONE, "F"})
         fn = chain(e.func)
         if fn == "bool" and len(e.args) == 1 and not e.keywords:
             return _bools({_is_true(x) for x in self.ev(e.args[0], env)})
+        if fn == "isinstance" and len(e.args) == 2 and not e.keywords:
+            r = self._isinstance(e, env)
+            if r is not None:
+                return r
         self._forget_walrus(e, env)
         last = fn.rsplit(".", 1)[-1] if fn else None
         if fn in _PURE_BOOL_CALLS:
@@ -739,6 +1126,9 @@ class _Feas:
             return _ANY
         cls = self.repo.resolve_class_expr(self.fi.module, e.func) if isinstance(e.func, (ast.Name, ast.Attribute)) else None
         if cls is not None:
+            rec = self._record(cls, e, env) if not awaited else None
+            if rec is not None:
+                return rec
             return _OBJ if (cls.lookup("__bool__") or cls.lookup("__len__")) else frozenset({"T"})
         follow = (isinstance(e.func, ast.Name) and e.func.id not in self.params and (e.func.id not in self.stored or e.func.id in _nested_defs(self.fi))) or \
             (isinstance(e.func, ast.Attribute) and chain(e.func.value) in ("self", "cls")) or \
@@ -772,10 +1162,56 @@ class _Feas:
                 out |= self._summary(t, e, env)
         return frozenset(out)
 
+    def _record(self, cls: ClassInfo, e: ast.Call, env: dict):
+        """the result object that `Cls(a, b, field=c)` builds, field by field; None when cls is not a plain record class"""
+        rf = _record_fields(self.ctx, cls)
+        if rf is None or any(isinstance(a, ast.Starred) for a in e.args) or any(k.arg is None for k in e.keywords) or len(e.args) > len(rf[1]):
+            return None
+        kind, fields = rf
+        names = [f for f, _ in fields]
+        given: dict = {}
+        for f, a in zip(names, e.args):
+            given[f] = a
+        for k in e.keywords:
+            if k.arg not in names or k.arg in given:
+                return None
+            given[k.arg] = k.value
+        vals = []
+        for f, d in fields:
+            if f in given:
+                vals.append(self.ev(given[f], env))
+            elif d is not None:
+                vals.append(self.ev(d, {}) if isinstance(d, ast.Constant) else _ANY)
+            else:
+                return None
+        if not all(vals):
+            return frozenset()           # an argument never evaluates normally
+        return frozenset({(kind, tuple(vals), (cls.name, tuple(names)))})
+
+    def _isinstance(self, e: ast.Call, env: dict):
+        """isinstance(x, C) decided from the result objects / constants that x can hold; None when it cannot be decided"""
+        x = strip_cast(e.args[0])
+        if not (isinstance(x, ast.Name) and x.id in env):
+            return None
+        ks = e.args[1].elts if isinstance(e.args[1], ast.Tuple) else [e.args[1]]
+        classes = [self.repo.resolve_class_expr(self.fi.module, k) for k in ks]
+        if any(c is None or _record_fields(self.ctx, c) is None or c.subclasses for c in classes):
+            return None
+        want = {c.name for c in classes}
+        outs = set()
+        for v in env[x.id]:
+            if _is_record_value(v):
+                outs.add(v[2][0] in want)
+            elif isinstance(v, tuple) and v[0] == "k" and (v[1] is None or isinstance(v[1], (bool, int, str, bytes, float, _Member))):
+                outs.add(False)
+            else:
+                return None
+        return _bools(outs)
+
     def bind_call(self, call: ast.Call, t: FuncInfo, envs: list) -> tuple[dict, dict] | None:
         """(parameter -> expression in root terms | None, parameter -> abstract value) for the call `call` to t, joined over the environments envs."""
         a = t.node.args
-        if any(isinstance(x, ast.Starred) for x in call.args) or any(k.arg is None for k in call.keywords):
+        if any(k.arg is None for k in call.keywords):
             return None
         pos = [p.arg for p in a.posonlyargs + a.args]
         decs = t.decorator_names()
@@ -794,7 +1230,9 @@ class _Feas:
             if idx >= len(pos):
                 if a.vararg is None:
                     return None
-                continue
+                continue              # (also `*args` handed on to the callee's own *args)
+            if isinstance(x, ast.Starred):
+                return None           # an unpacked argument would fill named parameters: not followed
             exprs[pos[idx]] = x
             idx += 1
         kwonly = [p.arg for p in a.kwonlyargs]
@@ -919,11 +1357,30 @@ def _chain_unreachable(ctx: Ctx, links: list[tuple[FuncInfo, ast.AST]], assume) 
 def _helper_targets(ctx: Ctx, fi: FuncInfo, call: ast.Call) -> list[FuncInfo]:
     """functions of the same object / module that a call in fi runs synchronously as part of fi (`self.m()`, `cls.m()`, `Class.m()`, `f()`; awaited coroutines)"""
     f = call.func
+    objv = getattr(fi, "_c11_obj", None)
+    if objv is not None and isinstance(f, ast.Attribute) and isinstance(f.value, ast.Name) and f.value.id == f"self@{objv[0].name}":
+        # another method of the same small helper object: seen through the same captured state
+        v = _object_method_view(ctx, objv[2], objv[3], objv[0], f.attr, objv[1])
+        return [v] if v is not None and (not v.is_async or _awaited(call)) and v.name != "__init__" else []
     is_super = isinstance(f, ast.Attribute) and isinstance(f.value, ast.Call) and chain(f.value.func) == "super" and not f.value.args
+    if isinstance(f, ast.Call) or (isinstance(f, ast.Attribute) and isinstance(f.value, ast.Call) and not is_super):
+        # a small helper object built and used on the spot: `_Detach(self.endpoint, self)()`, `_Teardown(self).run()`
+        bo = _built_object(ctx, fi, f if isinstance(f, ast.Call) else f.value)
+        if bo is None:
+            return []
+        v = _object_method_view(ctx, fi, bo[0], bo[1], "__call__" if isinstance(f, ast.Call) else f.attr)
+        return [v] if v is not None and (not v.is_async or _awaited(call)) and v.name != "__init__" else []
     if not (isinstance(f, ast.Name) or is_super or (isinstance(f, ast.Attribute) and isinstance(f.value, ast.Name))):
         return []
     if isinstance(f, ast.Attribute) and not is_super and f.value.id not in ("self", "cls") and ctx.repo.resolve_class_expr(fi.module, f.value) is None:
         return []
+    if isinstance(f, ast.Name) and f.id not in fi.params() and single_def(fi, f.id) is not None or \
+            (isinstance(f, ast.Attribute) and isinstance(f.value, ast.Name) and f.value.id not in ("self", "cls") and single_def(fi, f.value.id) is not None):
+        # a small helper object built in fi and called / asked to act here: `handover(..)`, `teardown.run()`
+        bo = _built_object(ctx, fi, f if isinstance(f, ast.Name) else f.value)
+        if bo is not None:
+            v = _object_method_view(ctx, fi, bo[0], bo[1], "__call__" if isinstance(f, ast.Name) else f.attr)
+            return [v] if v is not None and (not v.is_async or _awaited(call)) and v.name != "__init__" else []
     try:
         nd = _nested_defs(fi).get(f.id) if isinstance(f, ast.Name) else None
         if nd is None and isinstance(f, ast.Name) and (f.id in fi.params() or local_defs(fi, f.id)):
@@ -1019,7 +1476,36 @@ def _literal_rows(ctx: Ctx, fi: FuncInfo, it: ast.AST, _depth: int = 0) -> list[
     return None
 
 
+def _record_row(ctx: Ctx, fi: FuncInfo, row: ast.AST) -> ast.AST:
+    """a table row written as a small record `_Stage(self.circuits, self.remove_circuit)` (NamedTuple / dataclass / plain record class) is the tuple
+    of its field values, which also answers `row.field`; any other row is returned as it is"""
+    r = strip_cast(row)
+    if not isinstance(r, ast.Call) or any(isinstance(a, ast.Starred) for a in r.args) or any(k.arg is None for k in r.keywords):
+        return row
+    cls = ctx.repo.resolve_class_expr(fi.module, r.func)
+    rf = _record_fields(ctx, cls) if cls is not None else None
+    if rf is None or len(r.args) > len(rf[1]):
+        return row
+    names = [f for f, _ in rf[1]]
+    given = dict(zip(names, r.args))
+    for k in r.keywords:
+        if k.arg not in names or k.arg in given:
+            return row
+        given[k.arg] = k.value
+    vals = []
+    for f, d in rf[1]:
+        v = given.get(f, d if isinstance(d, ast.Constant) else None)
+        if v is None:
+            return row
+        vals.append(v)
+    t = ast.copy_location(ast.Tuple(elts=vals, ctx=ast.Load()), r)
+    t._c11_fields = (rf[0], names)      # noqa: SLF001
+    return t
+
+
 def _destructure(target: ast.AST, row: ast.AST, out: dict) -> bool:
+    if isinstance(target, (ast.Tuple, ast.List)) and getattr(row, "_c11_fields", ("t",))[0] != "t":
+        return False                     # only NamedTuple records can be unpacked
     if isinstance(target, ast.Name):
         out[target.id] = row
         return True
@@ -1043,6 +1529,15 @@ class _SubstFold(ast.NodeTransformer):
     def visit_Name(self, n: ast.Name):
         if isinstance(n.ctx, ast.Load) and n.id in self.mapping:
             return ast.copy_location(clone(self.mapping[n.id]), n)
+        return n
+
+    def visit_Attribute(self, n: ast.Attribute):
+        # a field of a record row: `stage.remover` with stage = _Stage(self.circuits, self.remove_circuit)
+        if isinstance(n.value, ast.Name) and isinstance(n.ctx, ast.Load) and n.value.id in self.mapping:
+            rec = getattr(self.mapping[n.value.id], "_c11_fields", None)
+            if rec is not None and n.attr in rec[1]:
+                return ast.copy_location(clone(self.mapping[n.value.id].elts[rec[1].index(n.attr)]), n)
+        self.generic_visit(n)
         return n
 
     def visit_Call(self, n: ast.Call):
@@ -1089,6 +1584,12 @@ class _SubstFold(ast.NodeTransformer):
 
     def visit_Subscript(self, n: ast.Subscript):
         self.generic_visit(n)
+        if isinstance(n.ctx, ast.Load) and isinstance(n.value, ast.Dict) and isinstance(n.slice, ast.Attribute) and isinstance(n.slice.value, ast.Name) \
+                and all(isinstance(k, ast.Attribute) and isinstance(k.value, ast.Name) for k in n.value.keys):
+            # a dispatch dict keyed by Enum members / class constants, indexed by one of them
+            hits = [v for k, v in zip(n.value.keys, n.value.values) if (k.value.id, k.attr) == (n.slice.value.id, n.slice.attr)]
+            if len(hits) == 1 and len({(k.value.id, k.attr) for k in n.value.keys}) == len(n.value.keys):
+                return hits[0]
         if isinstance(n.ctx, ast.Load) and isinstance(n.slice, ast.Constant):
             if isinstance(n.value, ast.Dict):
                 for k, v in zip(n.value.keys, n.value.values):
@@ -1158,6 +1659,7 @@ class _Unroller(ast.NodeTransformer):
         maps = []
         for r in rows:
             m: dict = {}
+            r = _record_row(self.ctx, self.fi, r)
             if not _destructure(target, r, m) or not all(_row_value_ok(v) for v in m.values()):
                 return None
             maps.append(m)
@@ -1347,6 +1849,225 @@ class _Unroller(ast.NodeTransformer):
     visit_ListComp = visit_SetComp = visit_GeneratorExp = _comp
 
 
+# ----------------------------------------------------------------------------------- functional spellings are written out
+_FUNC_OBJECTS = {"partial": "partial", "functools.partial": "partial", "methodcaller": "methodcaller", "operator.methodcaller": "methodcaller",
+                 "itemgetter": "itemgetter", "operator.itemgetter": "itemgetter", "attrgetter": "attrgetter", "operator.attrgetter": "attrgetter"}
+_PIPELINE_CALLS = {"map", "filter", "starmap", "itertools.starmap", "zip", "suppress", "contextlib.suppress", *_FUNC_OBJECTS}
+
+
+def _arg_ok(e: ast.AST) -> bool:
+    """an argument that may be evaluated later / more than once without changing anything: names, attribute reads, constants, displays and starred of these"""
+    return all(isinstance(n, (ast.Name, ast.Attribute, ast.Constant, ast.Tuple, ast.List, ast.Starred, ast.expr_context)) for n in ast.walk(e))
+
+
+class _Desugar(ast.NodeTransformer):
+    """
+    Writes out what functional spellings do, so that every rule sees the call that is really made:
+      partial(f, a, k=v)(x) -> f(a, x, k=v)      methodcaller("m", a)(x) -> x.m(a)      itemgetter(i)(x) -> x[i]      attrgetter("a.b")(x) -> x.a.b
+      (lambda p, q=D: E)(x) -> E[p:=x, q:=D]      obj(x) / obj.m(x) for a small helper object built here whose method is one `return E` -> E
+      map(F, it) -> (F(v) for v in it)      starmap(F, zip(a, b)) -> (F(v, w) for v, w in zip(a, b))      filter(P, it) -> (v for v in it if P(v))
+      zip(repeat(A), it) -> ((A, v) for v in it)      with suppress(E): body -> try: body except E: pass
+    also when F / obj is a local that is assigned once to such an expression.  Each rewrite is what Python evaluates (lazily where the original is lazy).
+    """
+
+    def __init__(self, ctx: Ctx, fi: FuncInfo) -> None:
+        self.ctx, self.fi = ctx, fi
+        self.changed = False
+        self.n = 0
+
+    def run(self, root):
+        self.root = root
+        root.body = [x for st in root.body for x in self._stmts(self.visit(st))]
+        return root
+
+    @staticmethod
+    def _stmts(r):
+        return r if isinstance(r, list) else [r]
+
+    def visit_FunctionDef(self, n):
+        return n
+    visit_AsyncFunctionDef = visit_ClassDef = visit_FunctionDef
+
+    def fresh(self, base: str) -> str:
+        self.n += 1
+        return f"{base}@{self.n}"
+
+    # ---- what does a callee expression denote?
+    def _stable(self, e: ast.AST) -> bool:
+        """the names in e keep their value from where e is written to where the callee is applied (parameters / single-assignment locals / globals)"""
+        return all(len(local_defs(self.fi, x.id)) <= (0 if x.id in self.fi.params() else 1) for x in ast.walk(e) if isinstance(x, ast.Name))
+
+    def _callee(self, f: ast.AST) -> ast.AST:
+        """the functional object / lambda that the callee expression f denotes (through a single-assignment local), else f itself"""
+        f = strip_cast(f)
+        if isinstance(f, ast.Name):
+            d = single_def(self.fi, f.id)
+            if d is not None and d[1] is None:
+                v = strip_cast(d[0])
+                if isinstance(v, ast.Lambda) and self._stable(v):
+                    return v
+                if isinstance(v, ast.Call) and chain(v.func) in _FUNC_OBJECTS and all(_arg_ok(a) for a in [*v.args, *[k.value for k in v.keywords]]) and self._stable(v):
+                    return v
+        return f
+
+    def _apply(self, f: ast.AST, args: list[ast.AST], keywords: list[ast.keyword] | None = None) -> ast.AST:
+        """the expression that calling f with the given arguments evaluates"""
+        call = ast.Call(func=f, args=list(args), keywords=list(keywords or []))
+        r = self._rewrite_call(call)
+        return r if r is not None else call
+
+    def _rewrite_call(self, n: ast.Call):  # noqa: C901, PLR0911, PLR0912
+        f = self._callee(n.func)
+        kind = _FUNC_OBJECTS.get(chain(f.func) or "") if isinstance(f, ast.Call) else None
+        plain = not n.keywords and not any(isinstance(a, ast.Starred) for a in n.args)
+        if kind == "partial" and f.args and not isinstance(f.args[0], ast.Starred) and all(k.arg for k in f.keywords):
+            kw = {k.arg: k for k in f.keywords}
+            kw.update({k.arg: k for k in n.keywords if k.arg})
+            rest = [k for k in n.keywords if not k.arg]
+            return self._apply(clone(f.args[0]), [clone(a) for a in [*f.args[1:], *n.args]], [clone(k) for k in [*kw.values(), *rest]])
+        if kind == "methodcaller" and f.args and isinstance(f.args[0], ast.Constant) and isinstance(f.args[0].value, str) and plain and len(n.args) == 1:
+            return ast.Call(func=ast.Attribute(value=n.args[0], attr=f.args[0].value, ctx=ast.Load()), args=[clone(a) for a in f.args[1:]],
+                            keywords=[clone(k) for k in f.keywords])
+        if kind == "itemgetter" and f.args and not f.keywords and plain and len(n.args) == 1 and _arg_ok(n.args[0]):
+            subs = [ast.Subscript(value=clone(n.args[0]), slice=clone(i), ctx=ast.Load()) for i in f.args]
+            return subs[0] if len(subs) == 1 else ast.Tuple(elts=subs, ctx=ast.Load())
+        if kind == "attrgetter" and len(f.args) == 1 and isinstance(f.args[0], ast.Constant) and isinstance(f.args[0].value, str) and plain and len(n.args) == 1 \
+                and all(p.isidentifier() for p in f.args[0].value.split(".")):
+            e = n.args[0]
+            for part in f.args[0].value.split("."):
+                e = ast.Attribute(value=e, attr=part, ctx=ast.Load())
+            return e
+        if isinstance(f, ast.Lambda) and plain:
+            a = f.args
+            ps = [x.arg for x in a.posonlyargs + a.args]
+            if a.vararg or a.kwarg or a.kwonlyargs or len(n.args) > len(ps) or len(n.args) < len(ps) - len(a.defaults):
+                return None
+            vals = [*n.args, *a.defaults[len(a.defaults) - (len(ps) - len(n.args)):]] if len(n.args) < len(ps) else list(n.args)
+            if not all(_arg_ok(v) for v in vals) or any(isinstance(x, (ast.Lambda, ast.NamedExpr)) for x in ast.walk(f.body)):
+                return None
+            return _instantiate(f.body, dict(zip(ps, vals)))
+        # a small helper object built in this function, called / asked to act: its method is one `return E`
+        tgt = n.func if isinstance(n.func, ast.Name) else n.func.value if isinstance(n.func, ast.Attribute) and isinstance(n.func.value, ast.Name) else None
+        if tgt is not None and plain and tgt.id not in ("self", "cls") and tgt.id not in self.fi.params() and single_def(self.fi, tgt.id) is not None:
+            bo = _built_object(self.ctx, self.fi, tgt)
+            if bo is not None and all(_arg_ok(x) for x in n.args):
+                v = _object_method_view(self.ctx, self.fi, bo[0], bo[1], "__call__" if isinstance(n.func, ast.Name) else n.func.attr)
+                body = [st for st in v.node.body if not (isinstance(st, ast.Expr) and isinstance(st.value, ast.Constant))] if v is not None else []
+                if len(body) == 1 and isinstance(body[0], ast.Return) and body[0].value is not None and not v.is_async and not v.decorator_names():
+                    a = v.node.args
+                    ps = [x.arg for x in a.posonlyargs + a.args][1:]
+                    if not (a.vararg or a.kwarg or a.kwonlyargs or a.defaults) and len(ps) == len(n.args) and \
+                            f"self@{bo[1].name}" not in {x.id for x in ast.walk(body[0].value) if isinstance(x, ast.Name)} and \
+                            not any(isinstance(x, (ast.Lambda, ast.NamedExpr, ast.Await, *_COMPREHENSIONS)) for x in ast.walk(body[0].value)):
+                        return _instantiate(body[0].value, dict(zip(ps, n.args)))
+        return None
+
+    def _gen(self, elt_of, iters: list[ast.AST], cond_of=None) -> ast.AST:
+        vs = [self.fresh("_v") for _ in iters]
+        loads = [ast.Name(id=v, ctx=ast.Load()) for v in vs]
+        if len(iters) == 1:
+            target, it = ast.Name(id=vs[0], ctx=ast.Store()), iters[0]
+        else:
+            target = ast.Tuple(elts=[ast.Name(id=v, ctx=ast.Store()) for v in vs], ctx=ast.Store())
+            it = ast.Call(func=ast.Name(id="zip", ctx=ast.Load()), args=iters, keywords=[])
+        ifs = [cond_of(loads)] if cond_of is not None else []
+        return ast.GeneratorExp(elt=elt_of(loads), generators=[ast.comprehension(target=target, iter=it, ifs=ifs, is_async=0)])
+
+    def visit_Call(self, n: ast.Call):  # noqa: C901
+        self.generic_visit(n)
+        r = self._rewrite_call(n)
+        if r is None:
+            fn = chain(n.func)
+            plain = not n.keywords and not any(isinstance(a, ast.Starred) for a in n.args)
+            if fn == "map" and plain and len(n.args) >= 2:
+                f = n.args[0]
+                r = self._gen(lambda vs: self._apply(clone(f), vs), list(n.args[1:]))
+            elif fn in ("starmap", "itertools.starmap") and plain and len(n.args) == 2:
+                f, it = n.args
+                if isinstance(it, ast.Call) and chain(it.func) == "zip" and it.args and not it.keywords and not any(isinstance(a, ast.Starred) for a in it.args):
+                    r = self._gen(lambda vs: self._apply(clone(f), vs), list(it.args))
+                elif isinstance(it, ast.GeneratorExp) and isinstance(it.elt, ast.Tuple) and not any(isinstance(x, ast.Starred) for x in it.elt.elts):
+                    r = ast.GeneratorExp(elt=self._apply(clone(f), list(it.elt.elts)), generators=it.generators)
+                else:
+                    r = self._gen(lambda vs: self._apply(clone(f), [ast.Starred(value=vs[0], ctx=ast.Load())]), [it])
+            elif fn == "filter" and plain and len(n.args) == 2:
+                f = n.args[0]
+                keep_truthy = isinstance(f, ast.Constant) and f.value is None
+                r = self._gen(lambda vs: vs[0], [n.args[1]], lambda vs: clone(vs[0]) if keep_truthy else self._apply(clone(f), [clone(vs[0])]))
+            elif fn == "zip" and plain and len(n.args) >= 2:
+                def rep(a):
+                    return isinstance(a, ast.Call) and chain(a.func) in ("repeat", "itertools.repeat") and len(a.args) == 1 and not a.keywords and _arg_ok(a.args[0])
+                live = [a for a in n.args if not rep(a)]
+                if len(live) == 1 and len(n.args) > 1:
+                    r = self._gen(lambda vs: ast.Tuple(elts=[clone(a.args[0]) if rep(a) else vs[0] for a in n.args], ctx=ast.Load()), live)
+        if r is None:
+            return n
+        self.changed = True
+        return ast.copy_location(r, n)
+
+    def visit_Subscript(self, n: ast.Subscript):
+        """`table[key]` where table is a local that is assigned once to a dict display and only ever read by subscript: the display is written in place
+        (so that it can be folded once the key is known)"""
+        self.generic_visit(n)
+        if isinstance(n.ctx, ast.Load) and isinstance(n.value, ast.Name) and n.value.id not in self.fi.params():
+            d = single_def(self.fi, n.value.id)
+            v = strip_cast(d[0]) if d is not None and d[1] is None else None
+            if isinstance(v, ast.Dict) and v.keys and all(k is not None and _arg_ok(k) for k in v.keys) and all(_arg_ok(x) for x in v.values) and self._stable(v):
+                uses = [x for x in ast.walk(self.root) if isinstance(x, ast.Name) and x.id == n.value.id and isinstance(x.ctx, ast.Load)]
+                if all(isinstance(parent(x), ast.Subscript) and parent(x).value is x and isinstance(parent(x).ctx, ast.Load) for x in uses):
+                    self.changed = True
+                    n.value = clone(v)
+        return n
+
+    def visit_Match(self, n: ast.Match):
+        """a `match` that the load-time normaliser left alone because its subject is not a plain name (`match (self._shutdown, self.is_active(name)):`,
+        `match self._admit(name):` with class patterns ..): the subject is evaluated into fresh locals first - in the same order - and the cases become
+        the if/elif chain that Python executes for them"""
+        self.generic_visit(n)
+        from ..normalize import _named_fields, _pattern, _simple_arg
+        if not hasattr(self, "_fields"):
+            self._fields = _named_fields(self.fi.module.tree)
+        pre: list[ast.stmt] = []
+        subj = n.subject
+
+        def temp(e: ast.AST) -> ast.AST:
+            t = self.fresh("_m")
+            pre.append(ast.copy_location(ast.Assign(targets=[ast.Name(id=t, ctx=ast.Store())], value=e), n))
+            return ast.Name(id=t, ctx=ast.Load())
+        if isinstance(subj, ast.Tuple) and not any(isinstance(e, ast.Starred) for e in subj.elts):
+            subj = ast.Tuple(elts=[e if _simple_arg(e) else temp(e) for e in subj.elts], ctx=ast.Load())
+        elif not _simple_arg(subj):
+            subj = temp(subj)
+        arms = []
+        for c in n.cases:
+            r = _pattern(c.pattern, subj, self._fields)
+            if r is None or (c.guard is not None and r[1]):
+                return n
+            cond, caps = r
+            if c.guard is not None:
+                cond = c.guard if cond is None else ast.BoolOp(op=ast.And(), values=[cond, c.guard])
+            arms.append((cond, [ast.copy_location(ast.Assign(targets=[ast.Name(id=k, ctx=ast.Store())], value=v), c.body[0]) for k, v in caps] + c.body))
+        chain_: list = []
+        for cond, body in reversed(arms):
+            chain_ = body if cond is None else [ast.copy_location(ast.If(test=cond, body=body, orelse=chain_), n)]
+        self.changed = True
+        return [*pre, *chain_] or [ast.copy_location(ast.Pass(), n)]
+
+    def visit_With(self, n: ast.With):
+        self.generic_visit(n)
+        for i, it in enumerate(n.items):
+            c = it.context_expr
+            if isinstance(c, ast.Call) and chain(c.func) in ("suppress", "contextlib.suppress") and not c.keywords and c.args and it.optional_vars is None \
+                    and not any(isinstance(a, ast.Starred) for a in c.args):
+                inner = n.body if i == len(n.items) - 1 else [ast.copy_location(ast.With(items=n.items[i + 1:], body=n.body), n)]
+                typ = c.args[0] if len(c.args) == 1 else ast.Tuple(elts=list(c.args), ctx=ast.Load())
+                tr = ast.copy_location(ast.Try(body=inner, handlers=[ast.copy_location(ast.ExceptHandler(type=typ, name=None, body=[ast.copy_location(ast.Pass(), n)]), n)],
+                                               orelse=[], finalbody=[]), n)
+                self.changed = True
+                return tr if i == 0 else ast.copy_location(ast.With(items=n.items[:i], body=[tr]), n)
+        return n
+
+
 def U(ctx: Ctx, fi: FuncInfo) -> FuncInfo:
     """
     The function as the rules look at it: loops and comprehensions over a table that is written out in the source (dispatch tuples of
@@ -1361,15 +2082,27 @@ def U(ctx: Ctx, fi: FuncInfo) -> FuncInfo:
     if hit is not None and hit[0] is fi.node:
         return hit[1]
     view = fi
-    if any(isinstance(x, (ast.For, *_COMPREHENSIONS)) for x in walk_no_nested(fi.node)):
+    if not isinstance(fi.node, ast.Lambda) and any(isinstance(x, (ast.For, ast.Match, *_COMPREHENSIONS)) or (isinstance(x, ast.Call) and chain(x.func) in _PIPELINE_CALLS) or
+                                                   (isinstance(x, ast.Call) and isinstance(x.func, (ast.Lambda, ast.Call))) or
+                                                   (isinstance(x, ast.Call) and isinstance(x.func, ast.Name) and x.func.id not in fi.params() and single_def(fi, x.func.id) is not None) or
+                                                   (isinstance(x, ast.Call) and isinstance(x.func, ast.Attribute) and isinstance(x.func.value, ast.Name)
+                                                    and x.func.value.id not in ("self", "cls") and x.func.value.id not in fi.params() and single_def(fi, x.func.value.id) is not None
+                                                    and _built_object(ctx, fi, x.func.value) is not None)
+                                                   for x in walk_no_nested(fi.node)):
         cur = fi
         for _ in range(4):
             new = clone(cur.node)
             set_parents(new)
             tmp = FuncInfo(fi.name, fi.qualname, new, fi.module, fi.cls)
+            ds = _Desugar(ctx, tmp)
+            new = ds.run(new)
+            if ds.changed:
+                ast.fix_missing_locations(new)
+                set_parents(new)
+                tmp = FuncInfo(fi.name, fi.qualname, new, fi.module, fi.cls)
             un = _Unroller(ctx, tmp)
             new = un.run(new)
-            if not un.changed:
+            if not un.changed and not ds.changed:
                 break
             ast.fix_missing_locations(new)
             set_parents(new)
@@ -1386,6 +2119,8 @@ def U(ctx: Ctx, fi: FuncInfo) -> FuncInfo:
                 ast.fix_missing_locations(new)
                 set_parents(new)
                 cur = view = FuncInfo(fi.name, fi.qualname, new, fi.module, fi.cls)
+    if view is not fi and getattr(fi, "_c11_obj", None) is not None:
+        view._c11_obj = fi._c11_obj      # noqa: SLF001
     views[k] = (fi.node, view)
     return view
 
@@ -1393,6 +2128,129 @@ def U(ctx: Ctx, fi: FuncInfo) -> FuncInfo:
 # ----------------------------------------------------------------------------------- callables handed over as callbacks
 def _nested_defs(fi: FuncInfo) -> dict[str, FuncInfo]:
     return {g.name: g for g in fi.module.all_functions if g.qualname.rsplit(".", 1)[0] == fi.qualname and g.node is not fi.node}
+
+
+def _ctor_field_map(ctx: Ctx, fi: FuncInfo, cls: ClassInfo, ctor: ast.Call) -> dict[str, ast.AST] | None:
+    """
+    field -> constructor argument (an expression of fi) for the fields of the object `Cls(..)` built by `ctor` that hold exactly what was passed in:
+    `self.<field> = <parameter>` at the top level of __init__ (or a NamedTuple / dataclass field), never rebound by any method of the class.
+    None when the arguments cannot be matched to parameters.
+    """
+    if any(isinstance(a, ast.Starred) for a in ctor.args) or any(k.arg is None for k in ctor.keywords):
+        return None
+    init = cls.lookup("__init__")
+    pairs: list[tuple[str, str]] = []          # (field, parameter)
+    defaults: dict[str, ast.AST] = {}
+    if init is None:
+        rf = _record_fields(ctx, cls)
+        if rf is None:
+            return None
+        params = [f for f, _ in rf[1]]
+        pairs = [(f, f) for f in params]
+        defaults = {f: d for f, d in rf[1] if d is not None}
+    else:
+        a = init.node.args
+        if a.vararg or a.kwarg or init.decorator_names():
+            return None
+        ps = init.params()
+        params = ps[1:]
+        pos = [p.arg for p in a.posonlyargs + a.args]
+        defaults = dict(zip(pos[len(pos) - len(a.defaults):], a.defaults))
+        defaults.update({p.arg: d for p, d in zip(a.kwonlyargs, a.kw_defaults) if d is not None})
+        stored = [x.id for x in ast.walk(init.node) if isinstance(x, ast.Name) and isinstance(x.ctx, (ast.Store, ast.Del))]
+        for st in init.node.body:
+            tgt = st.targets[0] if isinstance(st, ast.Assign) and len(st.targets) == 1 else st.target if isinstance(st, ast.AnnAssign) else None
+            val = strip_cast(st.value) if getattr(st, "value", None) is not None else None
+            if isinstance(tgt, ast.Attribute) and chain(tgt.value) == ps[0] and isinstance(val, ast.Name) and val.id in params and val.id not in stored:
+                pairs.append((tgt.attr, val.id))
+    given: dict[str, ast.AST] = {}
+    for p, x in zip(params, ctor.args):
+        given[p] = x
+    if len(ctor.args) > len(params):
+        return None
+    for k in ctor.keywords:
+        if k.arg not in params or k.arg in given:
+            return None
+        given[k.arg] = k.value
+    counts: dict[str, int] = {}
+    for m in cls.methods.values():
+        for x in ast.walk(m.node):
+            if isinstance(x, ast.Attribute) and isinstance(x.ctx, (ast.Store, ast.Del)):
+                counts[x.attr] = counts.get(x.attr, 0) + 1
+    out: dict[str, ast.AST] = {}
+    for f, p in pairs:
+        if counts.get(f, 0) > (1 if init is not None else 0):
+            continue                     # rebound somewhere: not a captured value
+        v = given.get(p, defaults.get(p))
+        if v is not None and _row_value_ok(v) and (p in given or isinstance(v, ast.Constant)):
+            out[f] = v
+    return out
+
+
+def _object_method_view(ctx: Ctx, fi: FuncInfo, ctor: ast.Call, cls: ClassInfo, meth: str, _fields: dict | None = None) -> FuncInfo | None:
+    """
+    The method `meth` of the small object that `ctor` (a call `Cls(..)` in fi) builds, written as the closure it replaces: every read of a field
+    that just holds a constructor argument is replaced by that argument (an expression of fi), the object itself is called `self@Cls`.
+    `_Handover(self, name, args, kwargs).__call__` thus reads `self.register_task(name, *args, **kwargs)`, like the nested def it stands for.
+    """
+    m = cls.lookup(meth)
+    if m is None or [d for d in m.decorator_names() if d != "staticmethod"]:
+        return None
+    views = getattr(ctx, "_c11_objviews", None)
+    if views is None:
+        views = ctx._c11_objviews = {}   # noqa: SLF001
+    key = (id(ctor), id(m.node))
+    if key in views:
+        return views[key]
+    views[key] = None
+    fields = _fields if _fields is not None else _ctor_field_map(ctx, fi, cls, ctor)
+    if fields is None:
+        return None
+    node = clone(m.node)
+    ps = m.params()
+    own = ps[0] if ps and "staticmethod" not in m.decorator_names() else None
+    outer = {x.id for v in fields.values() for x in ast.walk(v) if isinstance(x, ast.Name)}
+    inner = {x.id for x in ast.walk(node) if isinstance(x, ast.Name) and isinstance(x.ctx, (ast.Store, ast.Del))} | set(ps)
+    rename = {n: f"{n}@{m.name}" for n in (outer & inner) if n != own}
+    obj = f"self@{cls.name}"
+
+    class S(ast.NodeTransformer):
+        def visit_Attribute(self, n: ast.Attribute):
+            if isinstance(n.value, ast.Name) and n.value.id == own and isinstance(n.ctx, ast.Load) and n.attr in fields:
+                return ast.copy_location(clone(fields[n.attr]), n)
+            self.generic_visit(n)
+            return n
+
+        def visit_Name(self, n: ast.Name):
+            if n.id == own:
+                n.id = obj
+            elif n.id in rename:
+                n.id = rename[n.id]
+            return n
+
+        def visit_arg(self, n: ast.arg):
+            if n.arg == own:
+                n.arg = obj
+            elif n.arg in rename:
+                n.arg = rename[n.arg]
+            return n
+    node = S().visit(node)
+    ast.fix_missing_locations(node)
+    set_parents(node)
+    view = FuncInfo(m.name, m.qualname, node, m.module, fi.cls)
+    view._c11_obj = (cls, fields, fi, ctor)      # noqa: SLF001
+    views[key] = view
+    return view
+
+
+def _built_object(ctx: Ctx, fi: FuncInfo, e: ast.AST) -> tuple[ast.Call, ClassInfo] | None:
+    """(constructor call, class) when e (in fi) is an object of a repository class built right here: `Cls(..)` or a local that only holds that"""
+    e = resolve(fi, e)
+    if isinstance(e, ast.Call):
+        cls = ctx.repo.resolve_class_expr(fi.module, e.func)
+        if cls is not None:
+            return e, cls
+    return None
 
 
 def _callback_targets(ctx: Ctx, fi: FuncInfo, expr: ast.AST, _depth: int = 0) -> list[tuple[FuncInfo, str | None]]:
@@ -1419,6 +2277,15 @@ def _callback_targets(ctx: Ctx, fi: FuncInfo, expr: ast.AST, _depth: int = 0) ->
         ps = [x.arg for x in a.posonlyargs + a.args]
         lam = FuncInfo("<lambda>", fi.qualname + ".<lambda>", expr, fi.module, fi.cls)
         return [(lam, ps[0] if ps else None)]
+    if isinstance(expr, ast.Attribute) and chain(expr.value) not in ("self", "cls"):
+        # a bound method of a small helper object built here: `handover.fire` with handover = _Handover(self, name, ..)
+        bo = _built_object(ctx, fi, expr.value)
+        v = _object_method_view(ctx, fi, bo[0], bo[1], expr.attr) if bo is not None else None
+        if v is not None:
+            ps = v.params()
+            i = 0 if "staticmethod" in v.decorator_names() else 1
+            return [(v, ps[i] if len(ps) > i else None)]
+        return []
     if isinstance(expr, ast.Attribute) and chain(expr.value) in ("self", "cls") and fi.cls is not None:
         out = []
         for m in ctx.repo.dispatch(fi.cls, expr.attr):
@@ -1428,6 +2295,14 @@ def _callback_targets(ctx: Ctx, fi: FuncInfo, expr: ast.AST, _depth: int = 0) ->
             out.append((m, ps[i] if len(ps) > i else None))
         return out
     if isinstance(expr, ast.Call):
+        bo = _built_object(ctx, fi, expr)
+        if bo is not None:
+            # an instance of a small callable class replaces a closure: what runs is its __call__, with the captured state read from its fields
+            v = _object_method_view(ctx, fi, bo[0], bo[1], "__call__")
+            if v is None:
+                return []
+            ps = v.params()
+            return [(v, ps[1] if len(ps) > 1 else None)]
         if call_name(expr) == "partial" and expr.args:
             out = []
             for t, p in _callback_targets(ctx, fi, expr.args[0], _depth + 1):
@@ -1508,8 +2383,10 @@ def rule_super_chain(ctx: Ctx) -> None:
     raw = [x for x in calls(ou, "self.shutdown_task_manager")]
     ok = bool(rl) and bool(st) and all(_awaited(s) for s in [*st, *raw])
     if ok:
-        rn = [nn for r in rl for nn in cfg.nodes_for(r)]
-        ok = all(cfg.must_complete(nn, rn) for s in st for nn in cfg.nodes_for(s)) and cfg.exit not in cfg.reach(cut_nodes=[nn for s in st for nn in cfg.nodes_for(s)], follow_exc=False)
+        # (both steps may have moved, together or apart, into helpers / a small helper object: the order is judged where they meet)
+        ok = _must_precede(ctx, ou, lambda f: [x for x in calls(f) if rchain(f, x.func) == "self.endpoint.remove_listener" and chain(arg(x, 0)) == "self"],
+                           lambda f: [x for x in calls(f) if rchain(f, x.func) == "self.shutdown_task_manager"]) is True and \
+            cfg.exit not in cfg.reach(cut_nodes=[nn for s in st for nn in cfg.nodes_for(s)], follow_exc=False)
     ctx.check(ok, "super-chain", ou, ou.node, "Overlay.unload: remove_listener(self) then await shutdown_task_manager() on every path",
               "Overlay.unload does not stop listening before (or does not) shut its task manager down")
     cu = U(ctx, ctx.repo.method("Community", "unload", "ipv8/community.py"))
@@ -1520,6 +2397,54 @@ def rule_super_chain(ctx: Ctx) -> None:
         if _unloads_every_bootstrapper(U(ctx, h), x) and (len(links) == 1 or _unconditional(ctx, cu, links[0][1])):
             ok = True
     ctx.check(ok, "super-chain", cu, cu.node, "Community.unload unloads every bootstrapper", "bootstrappers are not unloaded")
+
+
+def _always_has_site(ctx: Ctx, fi: FuncInfo, finder, depth: int = 1, _stack: tuple = ()) -> list[ast.AST]:
+    """
+    Nodes of fi whose normal completion means that a site of `finder` has been executed: the sites themselves, and calls to helpers of the same
+    object (awaited when coroutines) in which every normal path executes one.
+    """
+    out = list(finder(fi))
+    if depth > 0:
+        for c in calls(fi):
+            ts = [t for t in _helper_targets(ctx, fi, c) if id(t.node) not in _stack]
+            if not ts:
+                continue
+            ok = True
+            for t in ts:
+                tv = U(ctx, t)
+                inner = _always_has_site(ctx, tv, finder, depth - 1, (*_stack, id(fi.node)))
+                cfg = ctx.cfg(tv)
+                if not inner or cfg.exit in cfg.reach(cut_nodes=[n for s in inner for n in cfg.nodes_for(s)], follow_exc=False):
+                    ok = False
+            if ok:
+                out.append(c)
+    return out
+
+
+def _must_precede(ctx: Ctx, fi: FuncInfo, first, then, depth: int = 2, _stack: tuple = ()) -> bool | None:
+    """
+    Whenever fi (or a helper of the same object that it runs) executes a site of `then`, a site of `first` has completed before - decided in the
+    function where the two meet: both may stand in fi, either may have moved into a helper, or both into the same helper.
+    None when fi executes no `then` site at all.
+    """
+    cfg = ctx.cfg(fi)
+    firsts = [n for s in _always_has_site(ctx, fi, first, depth) for n in cfg.nodes_for(s)]
+    found = None
+    for s in then(fi):
+        found = (found is not False) and all(cfg.must_complete(n, firsts) for n in cfg.nodes_for(s))
+    if depth > 0:
+        for c in calls(fi):
+            for t in _helper_targets(ctx, fi, c):
+                if id(t.node) in _stack:
+                    continue
+                if firsts and all(cfg.must_complete(n, firsts) for n in cfg.nodes_for(c)):
+                    inner = True if _sites_through(ctx, U(ctx, t), then, depth - 1, (*_stack, id(fi.node))) else None
+                else:
+                    inner = _must_precede(ctx, U(ctx, t), first, then, depth - 1, (*_stack, id(fi.node)))
+                if inner is not None:
+                    found = (found is not False) and inner
+    return found
 
 
 def _unconditional(ctx: Ctx, fi: FuncInfo, node: ast.AST) -> bool:
@@ -1566,8 +2491,9 @@ def rule_request_cache(ctx: Ctx) -> None:
                 sup = _performing_calls(ctx, u, lambda f, x: isinstance(x.func, ast.Attribute) and x.func.attr == "unload" and isinstance(x.func.value, ast.Call))
                 if sh:
                     shn = [nn for s in sh for nn in cfg.nodes_for(s)]
-                    ok = all(cfg.must_complete(nn, shn) for s in sup for nn in cfg.nodes_for(s)) and \
-                        cfg.exit not in cfg.reach(cut_nodes=shn, follow_exc=False)
+                    before = _must_precede(ctx, u, lambda f: [x for x in calls(f) if is_shutdown(f, x) and _awaited(x)],
+                                           lambda f: [x for x in calls(f) if isinstance(x.func, ast.Attribute) and x.func.attr == "unload" and isinstance(x.func.value, ast.Call)])
+                    ok = before is not False and cfg.exit not in cfg.reach(cut_nodes=shn, follow_exc=False)
                     break
                 if k.name in ("Community", "Overlay"):
                     break
@@ -1701,6 +2627,9 @@ def _releases_resource(ctx: Ctx, fi: FuncInfo) -> list[str]:
                 out.append(chain(c.func) or ch)
             if call_name(c) in ("close", "shutdown_task_manager") and not ch.startswith("self.logger"):
                 out.append(chain(c.func) or ch)
+        for st, tg in stores(f, ["self.circuits[]", "self.relay_from_to[]", "self.exit_sockets[]"]):
+            if isinstance(st, ast.Delete):
+                out.append("del " + (chain(tg) or ""))       # `del self.T[k]` releases the entry like `self.T.pop(k)`
         return out
     out = direct(fi)
     if not out:
@@ -1734,8 +2663,23 @@ def _flow_awaited(ctx: Ctx, fi: FuncInfo, k: ast.AST) -> bool:
     awaited, names, _ = _value_flow(fi, k)
     if awaited:
         return True
-    after = cfg.reach([v for kn in cfg.nodes_for(k) for v, lab in kn.succ if lab != "exc"])
-    return any(gn in after for g in _awaits_of_collections(fi, names) for gn in cfg.nodes_for(g))
+    waits = [gn for g in _awaits_of_collections(fi, names, ctx) for gn in cfg.nodes_for(g)]
+    if not waits:
+        return False
+
+    def skips_empty(u, v, lab) -> bool:
+        # `if removals: await gather(*removals)`: the branch taken when the collection is empty needs no waiting
+        if u.kind != "cond" or lab not in (True, False) or u.ast is None:
+            return False
+        for nm in names:
+            if _nonempty_test(u.ast, nm):
+                return lab is False
+            if _nonempty_test(ast.UnaryOp(op=ast.Not(), operand=u.ast), nm) or _empty_test(u.ast, nm):
+                return lab is True
+        return False
+    # every normal path from the start of the task to the end of the function waits for it
+    after = cfg.reach([v for kn in cfg.nodes_for(k) for v, lab in kn.succ if lab != "exc"], cut_nodes=waits, cut_edge=skips_empty, follow_exc=False)
+    return cfg.exit not in after
 
 
 def rule_awaited_release(ctx: Ctx) -> None:
@@ -1788,12 +2732,13 @@ def rule_awaited_release(ctx: Ctx) -> None:
         if fi is None:
             continue
         fi = U(ctx, fi)
-        for g in calls(fi, "gather"):
-            if not _awaited(g):
+        for links in _sites_through(ctx, fi, lambda f: [g for g in calls(f, "gather") if _awaited(g)], depth=1):
+            g = links[-1][1]
+            if not all(_awaited(c) for _, c in links[:-1] if isinstance(c, ast.Call)):
                 continue
             rex = arg(g, None, "return_exceptions")
-            shielded = (rex is not None and const_value(rex) is True) or any(isinstance(a, ast.Try) for a in ancestors(g)) or \
-                any(isinstance(a, ast.With) and any("suppress" in norm(i.context_expr) for i in a.items) for a in ancestors(g))
+            shielded = (rex is not None and const_value(rex) is True) or any(isinstance(a, ast.Try) for _, x in links for a in ancestors(x)) or \
+                any(isinstance(a, ast.With) and any("suppress" in norm(i.context_expr) for i in a.items) for _, x in links for a in ancestors(x))
             ctx.check(shielded, "awaited-release", fi, g, f"{c.name}.unload: awaited gather cannot abort the unload (return_exceptions=True)",
                       f"{c.name}.unload awaits gather(...) without return_exceptions=True: one failing release raises out of unload and the overlay stays loaded")
 
@@ -1876,7 +2821,9 @@ def rule_sockets(ctx: Ctx) -> None:
     cfg = ctx.cfg(au)
     dbc = [links[0][1] for links in _sites_through(ctx, au, lambda f: [k for k in calls(f) if rchain(f, k.func) == "self.database.close"], depth=1)]
     sup = _performing_calls(ctx, au, lambda f, x: isinstance(x.func, ast.Attribute) and x.func.attr == "unload" and isinstance(x.func.value, ast.Call))
-    ok = bool(dbc) and bool(sup) and all(cfg.must_complete(nn, [m for s in sup for m in cfg.nodes_for(s)]) for d in dbc for nn in cfg.nodes_for(d))
+    ok = bool(dbc) and bool(sup) and \
+        _must_precede(ctx, au, lambda f: [x for x in calls(f) if isinstance(x.func, ast.Attribute) and x.func.attr == "unload" and isinstance(x.func.value, ast.Call) and _awaited(x)],
+                      lambda f: [k for k in calls(f) if rchain(f, k.func) == "self.database.close"]) is True
     ctx.check(ok, "sockets", au, au.node, "AttestationCommunity closes its database after super().unload()", "attestation database is not closed (or closed while handlers may still run)")
     # every create_datagram_endpoint result is stored and has a close in its owner class
     n = 0
@@ -2077,7 +3024,16 @@ def _shuts_task_manager_down(ctx: Ctx, fi: FuncInfo, k: ast.Call, elem: list[Cla
                          (x.func.attr == "shutdown_task_manager" or (elem and all(e.lookup(x.func.attr) is not None and
                                                                                    _always_performs(ctx, e.lookup(x.func.attr), _is_own_shutdown) for e in elem)))]
                 cfg = ctx.cfg(tv)
-                if inner and cfg.exit not in cfg.reach(cut_nodes=[n for x in inner for n in cfg.nodes_for(x)], follow_exc=False):
+
+                def there(f, p=p):
+                    # the helper is judged for the case that it is given an entry (its own `if sock is None: return` guard is no way out)
+                    if f.op == "truthy" and chain(strip_cast(f.left)) == p:
+                        return True
+                    if f.op == "is" and const_value(f.right) is None and chain(strip_cast(f.left)) == p:
+                        return False
+                    return None
+                if inner and not local_defs(tv, p) and \
+                        cfg.exit not in _Feas(ctx, tv, there).explore(cut_nodes=[n for x in inner for n in cfg.nodes_for(x)], follow_exc=False):
                     return True
     return False
 
@@ -2104,6 +3060,56 @@ def _hands_entry_to_callers(ctx: Ctx, c: ClassInfo, fi: FuncInfo, t: str) -> boo
     return bool(callers) and all(f is not None and f.cls is not None and id(f.cls.node) in family for f in callers)
 
 
+def _entry_origins(fi: FuncInfo, e: ast.AST, t: str, _depth: int = 0) -> list[tuple[ast.stmt, ast.AST]]:
+    """(statement, read expression) for every place where the object that e denotes was read out of the mapping t: `x = self.T.get(k)` / `self.T[k]` /
+    `self.T.pop(k)`, followed through local aliases"""
+    e = strip_cast(e)
+    if isinstance(e, ast.Await):
+        e = strip_cast(e.value)
+    if isinstance(e, ast.Name) and _depth < 4 and e.id not in fi.params():
+        out = []
+        for st, v, i in local_defs(fi, e.id):
+            if v is None or i is not None:
+                continue
+            v = strip_cast(v)
+            if isinstance(v, ast.Name):
+                out += _entry_origins(fi, v, t, _depth + 1)
+            elif _table_read(fi, v) == t:
+                out.append((st, v))
+        return out
+    return []
+
+
+def _released_entry_is_stale(ctx: Ctx, fi: FuncInfo, k: ast.Call, t: str, removals: list[ast.AST]) -> tuple[ast.AST, ast.AST, ast.AST] | None:
+    """
+    The release k is applied to an object that was looked up in t, then the function may suspend, then it takes whatever is in t NOW out of the
+    table (discarding it): -> (lookup, suspension, removal).  The object released is the one from before the suspension, the one removed may be another.
+    """
+    cfg = ctx.cfg(fi)
+    entries = [k.func.value] if isinstance(k.func, ast.Attribute) else []
+    entries += [*k.args, *[kw.value for kw in k.keywords]]
+    entries += [a.value for a in [*k.args, *[kw.value for kw in k.keywords]] if isinstance(a, ast.Attribute)]
+    k_nodes = set(cfg.nodes_for(k))
+    suspensions = [a for a in walk_no_nested(fi.node) if isinstance(a, (ast.Await, ast.AsyncWith, ast.AsyncFor))]
+    for e in entries:
+        for d, read in _entry_origins(fi, e, t):
+            d_nodes = cfg.nodes_for(d)
+            for r in removals:
+                if any(x is r for x in ast.walk(d)) or any(x is read for x in ast.walk(r)):
+                    continue              # the object released IS what the removal returned
+                r_nodes = set(cfg.nodes_for(r))
+                if not (k_nodes & cfg.reach([v for n in r_nodes for v, lab in n.succ if lab != "exc"])):
+                    continue
+                after_d = cfg.reach([v for n in d_nodes for v, lab in n.succ if lab != "exc"], cut_nodes=d_nodes)
+                for a in suspensions:
+                    if any(x is r for x in ast.walk(a)) or any(x is read for x in ast.walk(a)):
+                        continue
+                    an = [x for x in cfg.nodes_for(a) if x in after_d]
+                    if an and r_nodes & cfg.reach([v for x in an for v, lab in x.succ if lab != "exc"], cut_nodes=d_nodes):
+                        return read, a, r
+    return None
+
+
 def rule_released_on_removal(ctx: Ctx) -> None:
     """
     An entry that is taken out of a table of TaskManager objects (TunnelCommunity.exit_sockets) has its task manager shut down by whoever took it out,
@@ -2116,12 +3122,14 @@ def rule_released_on_removal(ctx: Ctx) -> None:
         for fi in c.methods.values():
             fi = U(ctx, fi)
             tables = sorted({t for k in calls(fi) if isinstance(k.func, ast.Attribute) and k.func.attr in ("pop", "popitem") for t in [rchain(fi, k.func.value)]
-                             if t and t.startswith("self.") and t.count(".") == 1})
+                             if t and t.startswith("self.") and t.count(".") == 1} |
+                            {t for st, tg in stores(fi, lambda ch: ch.startswith("self.") and ch.endswith("[]") and ch.count(".") == 1) if isinstance(st, ast.Delete)
+                             for t in [rchain(fi, tg.value)] if t and t.startswith("self.") and t.count(".") == 1})
             for t in tables:
                 elem = _element_classes(ctx, c, t)
                 if not elem or not all(e.is_subclass_of("TaskManager") for e in elem):
                     continue
-                removals = [r for r in _removal_sites(ctx, fi, t) if isinstance(r, ast.Call)]
+                removals = [r for r in _removal_sites(ctx, fi, t) if isinstance(r, (ast.Call, ast.Delete))]      # pop / popitem / clear / a helper doing that / del
                 if not removals:
                     continue
                 if _hands_entry_to_callers(ctx, c, fi, t):
@@ -2150,6 +3158,14 @@ def rule_released_on_removal(ctx: Ctx) -> None:
                     if cfg.exit in after:
                         bad = r
                         break
+                # ... and what is shut down is the entry that was taken out, not one that was looked up before a suspension
+                stale = next((x for x in (_released_entry_is_stale(ctx, fi, k, t, removals) for k in shut) if x is not None), None)
+                ctx.check(stale is None, "released-on-removal", fi, stale[2] if stale else removals[0],
+                          f"{fi.qualname}: the entry that is shut down is the one that was taken out of {t}",
+                          f"{fi.qualname} looks an entry of {t} up (`{norm(stale[0])[:50]}`), may then suspend in `{norm(stale[1])[:50]}`, and afterwards removes whatever is "
+                          f"registered under the key NOW (`{norm(stale[2])[:50]}`, result discarded) but shuts down the object it looked up BEFORE suspending: when the key was "
+                          f"re-used in between, the new {', '.join(e.name for e in elem)} leaves the table without being shut down - {c.name}.unload enumerates {t} and cannot find "
+                          "it any more, so its sockets and tasks outlive unload" if stale else "")
                 ctx.check(bad is None, "released-on-removal", fi, bad or removals[0],
                           f"{fi.qualname}: an entry taken out of {t} has its task manager shut down on every normal path",
                           f"{fi.qualname} takes an entry out of {t} (`{norm(bad)[:50]}`) and can return without awaiting its shutdown_task_manager() "
@@ -2164,7 +3180,7 @@ def rule_tracked(ctx: Ctx) -> None:
     n = 0
     reg = ("register_task", "register_anonymous_task", "replace_task")
     for c in tm.all_subclasses():
-        for fi in [f for f in repo.all_functions() if f.cls is c]:
+        for fi in [U(ctx, f) for f in repo.all_functions() if f.cls is c]:
             for k in calls(fi, ["ensure_future", "create_task", "asyncio.ensure_future", "asyncio.create_task"]):
                 n += 1
                 p = parent(k)
@@ -2194,7 +3210,7 @@ def rule_tracked(ctx: Ctx) -> None:
     # create_task() or gather() around the step hand it to a separate, unregistered future that keeps running (and sending) after unload.
     TM = "ipv8/taskmanager.py"
     for rn in ("interval_runner", "delay_runner"):
-        fi = repo.func(TM, rn)
+        fi = U(ctx, repo.func(TM, rn))
         steps = []
         for links in _sites_through(ctx, fi, lambda f: [k for k in calls(f) if isinstance(k.func, ast.Name) and k.func.id in f.params()], depth=1):
             if len(links) == 1:
@@ -2279,6 +3295,8 @@ def _active_means_registered_and_running(ia: FuncInfo, ctx: Ctx | None = None) -
         return None
 
     def on_effect(s: ast.stmt, env: dict, ev: TableEvaluator) -> None:
+        if isinstance(s, ast.With) and any(isinstance(i.context_expr, ast.Call) and "suppress" in (chain(i.context_expr.func) or "") for i in s.items):
+            raise AnalysisError("undecided: suppress() in is_pending_task_active; not a plain decision table")
         if isinstance(s, ast.With):
             ev._block(s.body, env)      # noqa: SLF001  the lock does not change the result
         elif isinstance(s, ast.Try) and not s.finalbody and not s.orelse and len(s.handlers) == 1 and chain(s.handlers[0].type) in ("KeyError", "LookupError") \
@@ -2318,7 +3336,7 @@ def _active_by_paths(ctx: Ctx, ia: FuncInfo, name: str, is_lookup, registered: b
                 and is_lookup(f.left.func.value):
             return done
         return None
-    fe = _Feas(ctx, ia, assume)
+    fe = _Feas(ctx, U(ctx, ia), assume)
     fe.explore(follow_exc=False)
     outs = {_is_true(x) for x in fe.returns}
     return next(iter(outs)) if len(outs) == 1 else None
@@ -2360,6 +3378,40 @@ def _truthy_assumption(pred, value: bool):
     return lambda f: (value if f.op == "truthy" and pred(f.left) else None)
 
 
+def _name_state_assumption(name: str, *, registered: bool, done: bool):
+    """
+    assume: the task name `name` (an expression text in the terms of the analysed function) is / is not registered in self._pending_tasks and its
+    task is / is not done - whichever way the code asks: is_pending_task_active(name) (= registered and not done, checked by its own rule),
+    `self._pending_tasks.get(name)` / `self._pending_tasks[name]` / `self.get_task(name)` tested for truth or against None, `name in
+    self._pending_tasks`, `<that lookup>.done()`.
+    """
+    def is_name(e) -> bool:
+        return e is not None and norm(strip_cast(e)) == name
+
+    def lookup(e) -> bool:
+        e = strip_cast(e)
+        if isinstance(e, ast.Subscript):
+            return chain(e.value) == "self._pending_tasks" and is_name(e.slice)
+        return isinstance(e, ast.Call) and chain(e.func) in ("self._pending_tasks.get", "self.get_task") and bool(e.args) and is_name(e.args[0]) \
+            and (len(e.args) == 1 or const_value(e.args[1]) is None) and not e.keywords
+
+    def assume(f):
+        l = strip_cast(f.left)
+        if f.op == "truthy":
+            if isinstance(l, ast.Call) and chain(l.func) == "self.is_pending_task_active" and l.args and is_name(l.args[0]):
+                return registered and not done
+            if lookup(l):
+                return registered
+            if isinstance(l, ast.Call) and isinstance(l.func, ast.Attribute) and l.func.attr == "done" and not l.args and lookup(l.func.value):
+                return done
+        elif f.op == "is" and const_value(f.right) is None and lookup(l):
+            return not registered
+        elif f.op == "in" and is_name(l) and chain(f.right) in ("self._pending_tasks", "self._pending_tasks.keys()"):
+            return registered
+        return None
+    return assume
+
+
 def _is_pending_lookup(e: ast.AST) -> bool:
     e = strip_cast(e)
     if isinstance(e, ast.Call) and chain(e.func) == "self._pending_tasks.get" and e.args:
@@ -2375,14 +3427,17 @@ def rule_taskmanager(ctx: Ctx) -> None:  # noqa: C901, PLR0912, PLR0915
     name = rt.params()[1]
     shut = _truthy_assumption(lambda e: chain(e) == "self._shutdown", True)
     not_shutdown = _truthy_assumption(lambda e: chain(e) == "self._shutdown", False)
-    active = _truthy_assumption(lambda e: isinstance(e, ast.Call) and chain(e.func) == "self.is_pending_task_active" and e.args and norm(e.args[0]) == name, True)
+    # "the name is still active" = registered and its task not done, however the code asks (is_pending_task_active itself is checked below)
+    active = _name_state_assumption(name, registered=True, done=False)
+    name_states = (active, _name_state_assumption(name, registered=True, done=True), _name_state_assumption(name, registered=False, done=False))
     sts = _sites_through(ctx, rt, lambda f: [s for s, t in stores(f, "self._pending_tasks[]") if not isinstance(s, ast.Delete)])
     starts = _sites_through(ctx, rt, lambda f: calls(f, ["ensure_future", "create_task"]))
     ctx.anchor(sts, "_pending_tasks[name] = task")
     for links in [*sts, *starts]:
         f, s = links[-1]
-        not_shut = _chain_unreachable(ctx, links, shut)
-        not_active = _chain_unreachable(ctx, links, active)
+        # (when a test mixes the two questions - `case (False, True):` - each is decided by splitting the other into its complete set of cases)
+        not_shut = _chain_unreachable(ctx, links, shut) or all(_chain_unreachable(ctx, links, _assume_any(shut, st)) for st in name_states)
+        not_active = _chain_unreachable(ctx, links, active) or all(_chain_unreachable(ctx, links, _assume_any(active, st)) for st in (shut, not_shutdown))
         locked = _locked(links)
         fs = facts_at(ctx.cfg(f), s)
         ctx.check(not_shut and not_active and locked, "taskmanager-gates", f, s, f"`{norm(s)[:50]}` only when not shut down and the name is not active (under the lock)",
@@ -2442,21 +3497,24 @@ def rule_taskmanager(ctx: Ctx) -> None:  # noqa: C901, PLR0912, PLR0915
         if ok:
             g, links = regs[0]
             a0 = _in_caller_terms(links, arg(links[-1][1], 0))
-            nested_here = g.qualname.startswith(rp.qualname + ".")
+            nested_here = g.qualname.startswith(rp.qualname + ".") or getattr(g, "_c11_obj", None) is not None      # (written in replace_task's own terms)
             ok = a0 is not None and (norm(a0) == pname or (not nested_here and isinstance(strip_cast(a0), ast.Name)))
     ctx.check(ok, "taskmanager-gates", rp, rp.node, "replace_task registers the new task only in the done-callback of the cancelled old task",
               "replace_task starts the new task before the old one has finished")
     # shutdown_task_manager
     sh = U(ctx, repo.method("TaskManager", "shutdown_task_manager", TM))
     cfgs = ctx.cfg(sh)
-    flag = [links[0][1] for links in _sites_through(ctx, sh, lambda f: [s for s, t in stores(f, "self._shutdown") if const_value(_stored_value(s, t)) is True], depth=1)]
-    ca = [links[0][1] for links in _sites_through(ctx, sh, lambda f: calls(f, "self.cancel_all_pending_tasks"), depth=1)]
-    ok = bool(flag) and bool(ca) and all(cfgs.must_complete(nn, [m for f in flag for m in cfgs.nodes_for(f)]) for c in ca for nn in cfgs.nodes_for(c))
-    g = [c for c in calls(sh, ["gather", "wait"]) if _awaited(c)]
+    # (the flag store and the cancellation may stand in shutdown_task_manager itself or in helpers it runs - also both in the same helper; the order
+    # is judged in the function where the two meet)
+    ca = [links[0][1] for links in _sites_through(ctx, sh, lambda f: calls(f, "self.cancel_all_pending_tasks"), depth=2)]
+    ok = _must_precede(ctx, sh, lambda f: [s for s, t in stores(f, "self._shutdown") if const_value(_stored_value(s, t)) is True],
+                       lambda f: calls(f, "self.cancel_all_pending_tasks")) is True
+    g = [links for links in _sites_through(ctx, sh, lambda f: [c for c in calls(f, ["gather", "wait"]) if _awaited(c)], depth=1)
+         if all(_awaited(c) for _, c in links[:-1])]
     waited = bool(g) or any(_flow_awaited(ctx, sh, c) for c in ca if isinstance(c, ast.Call))
     ctx.check(ok and waited, "taskmanager-gates", sh, sh.node, "shutdown: flag set before all tasks are cancelled, cancellation awaited",
               "shutdown cancels tasks before refusing new ones (a cancelled task's callback can register a new task) or does not wait for cancellation")
-    cp = repo.method("TaskManager", "cancel_pending_task", TM)
+    cp = U(ctx, repo.method("TaskManager", "cancel_pending_task", TM))
     ok = bool(_sites_through(ctx, cp, lambda f: [c for c in calls(f) if call_name(c) == "cancel"], depth=1)) and \
         bool(_sites_through(ctx, cp, lambda f: [c for c in calls(f) if rchain(f, c.func) == "self._pending_tasks.pop"] +
                             [s for s, _ in stores(f, "self._pending_tasks[]") if isinstance(s, ast.Delete)], depth=1))
@@ -2506,11 +3564,13 @@ def rule_taskmanager(ctx: Ctx) -> None:  # noqa: C901, PLR0912, PLR0915
                   for f in scope for x in ast.walk(f.node) if isinstance(x, ast.Compare))
         ctx.check(open_ok and has and rechecked, "taskmanager-gates", h, c, "_deliver_later delivers only to a still-registered listener on an open endpoint",
                   "a packet can be delivered to a listener that was removed in the meantime")
-    rl = repo.method("Endpoint", "remove_listener", "ipv8/messaging/interfaces/endpoint.py")
+    rl = U(ctx, repo.method("Endpoint", "remove_listener", "ipv8/messaging/interfaces/endpoint.py"))
 
     def edits(attr: str) -> bool:
-        return bool(_sites_through(ctx, rl, lambda f: [s for s in walk_no_nested(f.node) if isinstance(s, (ast.Assign, ast.AnnAssign)) and
-                                                       any(chain(t) == f"self.{attr}" for t in (s.targets if isinstance(s, ast.Assign) else [s.target]))], depth=1))
+        # rebinding (also as one target of a tuple assignment), or an in-place edit of the collection
+        return bool(_sites_through(ctx, rl, lambda f: [s for s, _ in stores(f, [f"self.{attr}", f"self.{attr}[]"])] +
+                                   [k for k in calls(f) if isinstance(k.func, ast.Attribute) and k.func.attr in ("remove", "pop", "discard", "clear", "popitem")
+                                    and rchain(f, k.func.value) == f"self.{attr}"], depth=1))
     ok = edits("_listeners") and edits("_prefix_map")
     ctx.check(ok, "taskmanager-gates", rl, rl.node, "remove_listener drops the listener from the generic list and the prefix map", "remove_listener leaves the listener registered")
 
@@ -2598,6 +3658,9 @@ WITNESSES = [
     {"name": "exit socket that was never enabled keeps its task manager", "file": TC, "rule": "released-on-removal",
      "old": "        if exit_socket:\n            # Close socket\n            if exit_socket.enabled:\n                await exit_socket.close()\n            await exit_socket.shutdown_task_manager()\n",
      "new": "        if exit_socket and exit_socket.enabled:\n            await exit_socket.close()\n"},
+    {"name": "exit socket looked up before the removal delay is the one that gets closed", "rule": "released-on-removal", "edits": [
+        {"file": TC, "old": "        exit_socket = self.exit_sockets.pop(circuit_id, None)\n        if exit_socket:\n",
+         "new": "        self.exit_sockets.pop(circuit_id, None)\n        exit_socket = exit_socket_to_destroy\n        if exit_socket:\n"}]},
     {"name": "pex community dropped without unloading it", "file": "ipv8/messaging/anonymization/hidden_services.py", "rule": "released-on-removal",
      "old": "                        self.register_anonymous_task(\"unload_pex\", pex.unload)\n", "new": ""},
     {"name": "attestation db closed before super", "file": "ipv8/attestation/wallet/community.py", "rule": "sockets",
@@ -2614,4 +3677,37 @@ WITNESSES = [
     {'name': 'super().unload() behind a condition in a helper', 'rule': 'super-chain', 'edits': [{'file': 'ipv8/dht/community.py', 'old': '        await self.request_cache.shutdown()\n        await super().unload()', 'new': '        await self.request_cache.shutdown()\n        await self._unload_base()\n\n    async def _unload_base(self) -> None:\n        if self.request_cache is None:\n            await super().unload()'}]},
     {'name': 'release helper closes only enabled sockets', 'rule': 'released-on-removal', 'edits': [{'file': 'ipv8/messaging/anonymization/community.py', 'old': '        exit_socket = self.exit_sockets.pop(circuit_id, None)\n        if exit_socket:\n            # Close socket\n            if exit_socket.enabled:\n                await exit_socket.close()\n            await exit_socket.shutdown_task_manager()\n        return exit_socket\n', 'new': '        exit_socket = self.exit_sockets.pop(circuit_id, None)\n        if exit_socket:\n            await self._release_exit_socket(exit_socket)\n        return exit_socket\n\n    async def _release_exit_socket(self, exit_socket: TunnelExitSocket, *unused: Any) -> None:\n        # Close socket\n        if exit_socket.enabled:\n            await exit_socket.close()\n'}]},
     {'name': 'generator helper cancels only some names', 'rule': 'taskmanager-gates', 'edits': [{'file': 'ipv8/taskmanager.py', 'old': '            return [self.cancel_pending_task(name) for name in list(self._pending_tasks.keys())]\n', 'new': '            return list(self._cancel_each())\n\n    def _cancel_each(self):  # noqa: ANN202\n        for name in list(self._pending_tasks.keys()):\n            if isinstance(name, str):\n                yield self.cancel_pending_task(name)\n'}]},
+    # broken twins of round-3 shapes (result objects, callable classes, functional pipelines, try/except KeyError, suppress, helper objects)
+    {'name': "result object (NamedTuple) of the admission helper says 'not refused' after shutdown", 'rule': 'taskmanager-gates', 'edits': [{'file': 'ipv8/taskmanager.py', 'old': '            if self._shutdown:\n                self._logger.warning("Not adding task %s due to shutdown!", str(user_task))\n                if isinstance(user_task, (Task, Future)) and not user_task.done():\n                    user_task.cancel()\n                # We need to return an awaitable in case the caller awaits the output of register_task.\n                return succeed(None)\n\n            if self.is_pending_task_active(name):\n                msg = f"Task already exists: \'{name}\'"\n                raise RuntimeError(msg)\n', 'new': '            verdict = self._admission(name)\n            if verdict.refused:\n                self._logger.warning("Not adding task %s due to shutdown!", str(user_task))\n                if isinstance(user_task, (Task, Future)) and not user_task.done():\n                    user_task.cancel()\n                # We need to return an awaitable in case the caller awaits the output of register_task.\n                return succeed(None)\n            if verdict.duplicate:\n                msg = f"Task already exists: \'{name}\'"\n                raise RuntimeError(msg)\n'}, {'file': 'ipv8/taskmanager.py', 'old': '    def register_anonymous_task(', 'new': '    def _admission(self, name: Hashable) -> _Verdict:\n        if self._shutdown:\n            return _Verdict(refused=False, duplicate=False)\n        return _Verdict(False, self.is_pending_task_active(name))\n\n    def register_anonymous_task('}, {'file': 'ipv8/taskmanager.py', 'old': 'class TaskManager:', 'new': 'class _Verdict(NamedTuple):\n    refused: bool\n    duplicate: bool\n\n\nclass TaskManager:'}, {'file': 'ipv8/taskmanager.py', 'old': 'from typing import TYPE_CHECKING, Any', 'new': 'from typing import TYPE_CHECKING, Any, NamedTuple'}]},
+    {'name': 'admission helper returning sentinel objects treats a running task as free (try/except KeyError lookup)', 'rule': 'taskmanager-gates', 'edits': [{'file': 'ipv8/taskmanager.py', 'old': '            if self._shutdown:\n                self._logger.warning("Not adding task %s due to shutdown!", str(user_task))\n                if isinstance(user_task, (Task, Future)) and not user_task.done():\n                    user_task.cancel()\n                # We need to return an awaitable in case the caller awaits the output of register_task.\n                return succeed(None)\n\n            if self.is_pending_task_active(name):\n                msg = f"Task already exists: \'{name}\'"\n                raise RuntimeError(msg)\n', 'new': '            outcome = self._admission(name)\n            if outcome is _CLOSED:\n                self._logger.warning("Not adding task %s due to shutdown!", str(user_task))\n                if isinstance(user_task, (Task, Future)) and not user_task.done():\n                    user_task.cancel()\n                # We need to return an awaitable in case the caller awaits the output of register_task.\n                return succeed(None)\n            if outcome is _TAKEN:\n                msg = f"Task already exists: \'{name}\'"\n                raise RuntimeError(msg)\n'}, {'file': 'ipv8/taskmanager.py', 'old': '    def register_anonymous_task(', 'new': '    def _admission(self, name: Hashable) -> object:\n        if self._shutdown:\n            return _CLOSED\n        try:\n            return _TAKEN if self._pending_tasks[name].done() else _FREE\n        except KeyError:\n            return _FREE\n\n    def register_anonymous_task('}, {'file': 'ipv8/taskmanager.py', 'old': 'class TaskManager:', 'new': '_CLOSED = object()\n_TAKEN = object()\n_FREE = object()\n\n\nclass TaskManager:'}]},
+    {'name': 'admission helper returning dataclass results, acted on with match, forgets the duplicate-name result', 'rule': 'taskmanager-gates', 'edits': [{'file': 'ipv8/taskmanager.py', 'old': '            if self._shutdown:\n                self._logger.warning("Not adding task %s due to shutdown!", str(user_task))\n                if isinstance(user_task, (Task, Future)) and not user_task.done():\n                    user_task.cancel()\n                # We need to return an awaitable in case the caller awaits the output of register_task.\n                return succeed(None)\n\n            if self.is_pending_task_active(name):\n                msg = f"Task already exists: \'{name}\'"\n                raise RuntimeError(msg)\n', 'new': '            match self._admission(name, user_task):\n                case _Refused(placeholder=placeholder):\n                    return placeholder\n                case _Duplicate(message=msg):\n                    raise RuntimeError(msg)\n'}, {'file': 'ipv8/taskmanager.py', 'old': '    def register_anonymous_task(', 'new': '    def _admission(self, name: Hashable, user_task: Any) -> _Refused | _Duplicate | None:  # noqa: ANN401\n        if self._shutdown:\n            self._logger.warning("Not adding task %s due to shutdown!", str(user_task))\n            if isinstance(user_task, (Task, Future)) and not user_task.done():\n                user_task.cancel()\n            # We need to return an awaitable in case the caller awaits the output of register_task.\n            return _Refused(succeed(None))\n        if self.is_pending_task_active(name):\n            return None\n        return None\n\n    def register_anonymous_task('}, {'file': 'ipv8/taskmanager.py', 'old': 'class TaskManager:', 'new': '@dataclass(frozen=True)\nclass _Refused:\n    placeholder: Future\n\n\n@dataclass(frozen=True)\nclass _Duplicate:\n    message: str\n\n\nclass TaskManager:'}, {'file': 'ipv8/taskmanager.py', 'old': 'from contextlib import suppress', 'new': 'from contextlib import suppress\nfrom dataclasses import dataclass'}]},
+    {'name': 'done-callback as a small callable class deletes the name unconditionally', 'rule': 'taskmanager-gates', 'edits': [{'file': 'ipv8/taskmanager.py', 'old': '            def done_cb(future: Future) -> None:\n                # Only unregister ourselves: the name may have been taken by a newer task in the meantime.\n                if self._pending_tasks.get(name, None) is future:\n                    self._pending_tasks.pop(name, None)\n                try:\n                    future.result()\n                except CancelledError:\n                    pass\n                except ignore as e:  # type: ignore[misc]\n                    self._logger.exception("Task resulted in error: %s\\n%s", e, "".join(traceback.format_exc()))\n\n            self._pending_tasks[name] = user_task\n            user_task.add_done_callback(done_cb)\n', 'new': '            self._pending_tasks[name] = user_task\n            user_task.add_done_callback(_Finished(self, name, ignore))\n'}, {'file': 'ipv8/taskmanager.py', 'old': 'class TaskManager:', 'new': 'class _Finished:\n    """\n    Done-callback of a registered task.\n    """\n\n    def __init__(self, owner: TaskManager, name: Hashable, ignore: tuple) -> None:\n        self.owner = owner\n        self.name = name\n        self.ignore = ignore\n\n    def __call__(self, future: Future) -> None:\n        # Only unregister ourselves: the name may have been taken by a newer task in the meantime.\n        self._forget(future)\n        try:\n            future.result()\n        except CancelledError:\n            pass\n        except self.ignore as e:\n            self.owner._logger.exception("Task resulted in error: %s\\n%s", e, "".join(traceback.format_exc()))  # noqa: SLF001\n\n    def _forget(self, future: Future) -> None:\n        with suppress(KeyError):\n            del self.owner._pending_tasks[self.name]  # noqa: SLF001\n\n\nclass TaskManager:'}]},
+    {'name': 'replace_task calls its handover object directly instead of attaching it to the old task', 'rule': 'taskmanager-gates', 'edits': [{'file': 'ipv8/taskmanager.py', 'old': '        new_task: Future = Future()\n\n        def cancel_cb(_: Any) -> None:  # noqa: ANN401\n            try:\n                new_task.set_result(self.register_task(name, *args, **kwargs))\n            except Exception as e:\n                new_task.set_exception(e)\n\n        old_task = self.cancel_pending_task(name)\n        old_task.add_done_callback(cancel_cb)\n        return new_task\n', 'new': '        handover = _Handover(self, name, args, kwargs)\n        handover(self.cancel_pending_task(name))\n        return handover.outcome\n'}, {'file': 'ipv8/taskmanager.py', 'old': 'class TaskManager:', 'new': 'class _Handover:\n    def __init__(self, manager: TaskManager, name: Hashable, args: tuple, kwargs: dict) -> None:\n        self.manager = manager\n        self.name = name\n        self.args = args\n        self.kwargs = kwargs\n        self.outcome: Future = Future()\n\n    def __call__(self, _: Any) -> None:  # noqa: ANN401\n        try:\n            self.outcome.set_result(self.manager.register_task(self.name, *self.args, **self.kwargs))\n        except Exception as e:\n            self.outcome.set_exception(e)\n\n\nclass TaskManager:'}]},
+    {'name': 'handover object registers the replacement under another name', 'rule': 'taskmanager-gates', 'edits': [{'file': 'ipv8/taskmanager.py', 'old': '        new_task: Future = Future()\n\n        def cancel_cb(_: Any) -> None:  # noqa: ANN401\n            try:\n                new_task.set_result(self.register_task(name, *args, **kwargs))\n            except Exception as e:\n                new_task.set_exception(e)\n\n        old_task = self.cancel_pending_task(name)\n        old_task.add_done_callback(cancel_cb)\n        return new_task\n', 'new': '        handover = _Handover(self, name, args, kwargs)\n        self.cancel_pending_task(name).add_done_callback(handover)\n        return handover.outcome\n'}, {'file': 'ipv8/taskmanager.py', 'old': 'class TaskManager:', 'new': 'class _Handover:\n    def __init__(self, manager: TaskManager, name: Hashable, args: tuple, kwargs: dict) -> None:\n        self.manager = manager\n        self.name = name\n        self.args = args\n        self.kwargs = kwargs\n        self.outcome: Future = Future()\n\n    def __call__(self, _: Any) -> None:  # noqa: ANN401\n        try:\n            self.outcome.set_result(self.manager.register_task(self.kwargs, *self.args, **self.kwargs))\n        except Exception as e:\n            self.outcome.set_exception(e)\n\n\nclass TaskManager:'}]},
+    {'name': 'shutdown helper cancels before it sets the flag', 'rule': 'taskmanager-gates', 'edits': [{'file': 'ipv8/taskmanager.py', 'old': '        if self._shutdown:\n            return\n\n        with self._task_lock:\n            self._shutdown = True\n            tasks = self.cancel_all_pending_tasks()\n\n        if tasks:\n            with suppress(CancelledError):\n                await gather(*tasks)\n', 'new': '        tasks = self._close()\n        if tasks is None:\n            return\n        await self._settle(tasks)\n'}, {'file': 'ipv8/taskmanager.py', 'old': '__all__ =', 'new': '__all__ ='}, {'file': 'ipv8/taskmanager.py', 'old': '    async def shutdown_task_manager(self) -> None:', 'new': '    def _close(self) -> list[Future] | None:\n        if self._shutdown:\n            return None\n        with self._task_lock:\n            tasks = self.cancel_all_pending_tasks()\n            self._shutdown = True\n            return tasks\n\n    async def _settle(self, tasks: list[Future]) -> None:\n        if not tasks:\n            return\n        with suppress(CancelledError):\n            await gather(*tasks)\n\n    async def shutdown_task_manager(self) -> None:'}]},
+    {'name': 'shutdown plan object built before the flag is set', 'rule': 'taskmanager-gates', 'edits': [{'file': 'ipv8/taskmanager.py', 'old': '        if self._shutdown:\n            return\n\n        with self._task_lock:\n            self._shutdown = True\n            tasks = self.cancel_all_pending_tasks()\n\n        if tasks:\n            with suppress(CancelledError):\n                await gather(*tasks)\n', 'new': '        match self._begin_shutdown():\n            case _Closing(already=True):\n                return\n            case _Closing(cancelled=cancelled) if cancelled:\n                with suppress(CancelledError):\n                    await gather(*cancelled)\n'}, {'file': 'ipv8/taskmanager.py', 'old': '    async def shutdown_task_manager(self) -> None:', 'new': '    def _begin_shutdown(self) -> _Closing:\n        if self._shutdown:\n            return _Closing(True, [])\n        with self._task_lock:\n            plan = _Closing(False, self.cancel_all_pending_tasks())\n            self._shutdown = True\n            return plan\n\n    async def shutdown_task_manager(self) -> None:'}, {'file': 'ipv8/taskmanager.py', 'old': 'class TaskManager:', 'new': 'class _Closing(NamedTuple):\n    already: bool\n    cancelled: list\n\n\nclass TaskManager:'}, {'file': 'ipv8/taskmanager.py', 'old': 'from typing import TYPE_CHECKING, Any', 'new': 'from typing import TYPE_CHECKING, Any, NamedTuple'}]},
+    {'name': 'is_pending_task_active with suppress(KeyError) reports an unknown name as active', 'rule': 'taskmanager-gates', 'edits': [{'file': 'ipv8/taskmanager.py', 'old': '            pending_task = self._pending_tasks.get(name, None)\n            return not pending_task.done() if pending_task else False\n', 'new': '            with suppress(KeyError):\n                return not self._pending_tasks[name].done()\n            return True\n'}]},
+    {'name': 'cancel_all_pending_tasks maps over only the first names', 'rule': 'taskmanager-gates', 'edits': [{'file': 'ipv8/taskmanager.py', 'old': '            return [self.cancel_pending_task(name) for name in list(self._pending_tasks.keys())]\n', 'new': '            return [*map(self.cancel_pending_task, islice([*self._pending_tasks], 10))]\n'}]},
+    {'name': '_deliver_later decision helper (Enum, try/except KeyError) delivers to a removed listener', 'rule': 'taskmanager-gates', 'edits': [{'file': 'ipv8/messaging/interfaces/endpoint.py', 'old': '        if self.is_open() and (packet[1][:self.prefixlen] in self._prefix_map or listener in self._listeners):\n            listener.on_packet(packet)\n', 'new': '        if self._fate(packet, listener) is _Fate.DELIVER:\n            listener.on_packet(packet)\n\n    def _fate(self, packet: tuple[Address, bytes], listener: EndpointListener) -> _Fate:\n        if not self.is_open():\n            return _Fate.CLOSED\n        try:\n            self._prefix_map[packet[1][:self.prefixlen]]\n        except KeyError:\n            return _Fate.DELIVER if listener in self._listeners else _Fate.DELIVER\n        return _Fate.DELIVER\n'}, {'file': 'ipv8/messaging/interfaces/endpoint.py', 'old': 'class Endpoint(', 'new': 'class _Fate(Enum):\n    CLOSED = auto()\n    GONE = auto()\n    DELIVER = auto()\n\n\nclass Endpoint('}, {'file': 'ipv8/messaging/interfaces/endpoint.py', 'old': 'import abc', 'new': 'import abc\nfrom enum import Enum, auto'}]},
+    {'name': '_deliver_later state object claims the prefix is always registered', 'rule': 'taskmanager-gates', 'edits': [{'file': 'ipv8/messaging/interfaces/endpoint.py', 'old': '        if self.is_open() and (packet[1][:self.prefixlen] in self._prefix_map or listener in self._listeners):\n            listener.on_packet(packet)\n', 'new': '        state = self._listening_state(listener, packet[1][:self.prefixlen])\n        if state.open and (state.by_prefix or state.generic):\n            listener.on_packet(packet)\n\n    def _listening_state(self, listener: EndpointListener, prefix: bytes) -> _Listening:\n        return _Listening(self.is_open(), True, listener in self._listeners)\n'}, {'file': 'ipv8/messaging/interfaces/endpoint.py', 'old': 'class Endpoint(', 'new': 'class _Listening(NamedTuple):\n    open: bool\n    by_prefix: bool\n    generic: bool\n\n\nclass Endpoint('}, {'file': 'ipv8/messaging/interfaces/endpoint.py', 'old': 'from typing import TYPE_CHECKING', 'new': 'from typing import TYPE_CHECKING, NamedTuple'}]},
+    {'name': 'map/partial pipeline of removals leaves the exit sockets out', 'rule': 'sockets', 'edits': [{'file': 'ipv8/messaging/anonymization/community.py', 'old': '        removals = []\n        for circuit_id in list(self.circuits.keys()):\n            removals.append(self.remove_circuit(circuit_id, "unload", remove_now=True, destroy=DESTROY_REASON_SHUTDOWN))\n        for circuit_id in list(self.relay_from_to.keys()):\n            removals.append(self.remove_relay(circuit_id, "unload", remove_now=True, destroy=DESTROY_REASON_SHUTDOWN))\n        for circuit_id in list(self.exit_sockets.keys()):\n            removals.append(self.remove_exit_socket(circuit_id, "unload", remove_now=True,\n                                                    destroy=DESTROY_REASON_SHUTDOWN))\n', 'new': '        removals = [\n            *map(partial(self.remove_circuit, additional_info="unload", remove_now=True, destroy=DESTROY_REASON_SHUTDOWN),\n                 list(self.circuits)),\n            *map(partial(self.remove_relay, additional_info="unload", remove_now=True, destroy=DESTROY_REASON_SHUTDOWN),\n                 list(self.relay_from_to)),\n        ]\n'}, {'file': 'ipv8/messaging/anonymization/community.py', 'old': 'from asyncio import', 'new': 'from functools import partial\nfrom asyncio import'}]},
+    {'name': 'map/partial pipeline of removals filters the exit socket keys', 'rule': 'sockets', 'edits': [{'file': 'ipv8/messaging/anonymization/community.py', 'old': '        removals = []\n        for circuit_id in list(self.circuits.keys()):\n            removals.append(self.remove_circuit(circuit_id, "unload", remove_now=True, destroy=DESTROY_REASON_SHUTDOWN))\n        for circuit_id in list(self.relay_from_to.keys()):\n            removals.append(self.remove_relay(circuit_id, "unload", remove_now=True, destroy=DESTROY_REASON_SHUTDOWN))\n        for circuit_id in list(self.exit_sockets.keys()):\n            removals.append(self.remove_exit_socket(circuit_id, "unload", remove_now=True,\n                                                    destroy=DESTROY_REASON_SHUTDOWN))\n', 'new': '        removals = [\n            *map(partial(self.remove_circuit, additional_info="unload", remove_now=True, destroy=DESTROY_REASON_SHUTDOWN),\n                 list(self.circuits)),\n            *map(partial(self.remove_relay, additional_info="unload", remove_now=True, destroy=DESTROY_REASON_SHUTDOWN),\n                 list(self.relay_from_to)),\n            *map(partial(self.remove_exit_socket, additional_info="unload", remove_now=True, destroy=DESTROY_REASON_SHUTDOWN),\n                 filter(None, list(self.exit_sockets))),\n        ]\n'}, {'file': 'ipv8/messaging/anonymization/community.py', 'old': 'from asyncio import', 'new': 'from functools import partial\nfrom asyncio import'}]},
+    {'name': 'callable starter object is given the wrong remover for the exit sockets', 'rule': 'sockets', 'edits': [{'file': 'ipv8/messaging/anonymization/community.py', 'old': '        removals = []\n        for circuit_id in list(self.circuits.keys()):\n            removals.append(self.remove_circuit(circuit_id, "unload", remove_now=True, destroy=DESTROY_REASON_SHUTDOWN))\n        for circuit_id in list(self.relay_from_to.keys()):\n            removals.append(self.remove_relay(circuit_id, "unload", remove_now=True, destroy=DESTROY_REASON_SHUTDOWN))\n        for circuit_id in list(self.exit_sockets.keys()):\n            removals.append(self.remove_exit_socket(circuit_id, "unload", remove_now=True,\n                                                    destroy=DESTROY_REASON_SHUTDOWN))\n', 'new': '        start = _Teardown(self)\n        removals = [start(self.remove_circuit, cid) for cid in list(self.circuits)]\n        removals += [start(self.remove_relay, cid) for cid in list(self.relay_from_to)]\n        removals += [start(self.remove_relay, cid) for cid in list(self.exit_sockets)]\n'}, {'file': 'ipv8/messaging/anonymization/community.py', 'old': 'class TunnelCommunity(', 'new': 'class _Teardown:\n    """\n    Starts one removal for unload.\n    """\n\n    def __init__(self, community: TunnelCommunity) -> None:\n        self.community = community\n\n    def __call__(self, remover: Callable, circuit_id: int) -> Future:\n        return remover(circuit_id, "unload", remove_now=True, destroy=DESTROY_REASON_SHUTDOWN)\n\n\nclass TunnelCommunity('}]},
+    {'name': 'awaiting helper returns early on an unrelated condition', 'rule': 'awaited-release', 'edits': [{'file': 'ipv8/messaging/anonymization/community.py', 'old': '        await gather(*removals, return_exceptions=True)\n\n        # The crypto', 'new': '        await self._settle(removals)\n\n        # The crypto'}, {'file': 'ipv8/messaging/anonymization/community.py', 'old': '    def get_serializer(self) -> Serializer:', 'new': '    async def _settle(self, pending: list) -> None:\n        if not pending or self.settings.remove_tunnel_delay > 0:\n            return\n        await gather(*pending, return_exceptions=True)\n\n    def get_serializer(self) -> Serializer:'}]},
+    {'name': 'awaiting helper gathers without return_exceptions', 'rule': 'awaited-release', 'edits': [{'file': 'ipv8/messaging/anonymization/community.py', 'old': '        await gather(*removals, return_exceptions=True)\n\n        # The crypto', 'new': '        await self._settle(removals)\n\n        # The crypto'}, {'file': 'ipv8/messaging/anonymization/community.py', 'old': '    def get_serializer(self) -> Serializer:', 'new': '    async def _settle(self, pending: list) -> None:\n        if not pending:\n            return\n        await gather(*pending)\n\n    def get_serializer(self) -> Serializer:'}]},
+    {'name': 'entry deleted with `del` after a subscript lookup is never shut down', 'rule': 'released-on-removal', 'edits': [{'file': 'ipv8/messaging/anonymization/community.py', 'old': '        exit_socket = self.exit_sockets.pop(circuit_id, None)\n        if exit_socket:\n            # Close socket\n            if exit_socket.enabled:\n                await exit_socket.close()\n            await exit_socket.shutdown_task_manager()\n        return exit_socket\n', 'new': '        try:\n            exit_socket = self.exit_sockets[circuit_id]\n        except KeyError:\n            return None\n        del self.exit_sockets[circuit_id]\n        # Close socket\n        if exit_socket.enabled:\n            await exit_socket.close()\n        return exit_socket\n'}]},
+    {'name': 'entry popped under suppress(KeyError) is shut down only when enabled', 'rule': 'released-on-removal', 'edits': [{'file': 'ipv8/messaging/anonymization/community.py', 'old': '        exit_socket = self.exit_sockets.pop(circuit_id, None)\n        if exit_socket:\n            # Close socket\n            if exit_socket.enabled:\n                await exit_socket.close()\n            await exit_socket.shutdown_task_manager()\n        return exit_socket\n', 'new': '        with suppress(KeyError):\n            exit_socket = self.exit_sockets.pop(circuit_id)\n            # Close socket\n            if exit_socket.enabled:\n                await exit_socket.close()\n                await exit_socket.shutdown_task_manager()\n            return exit_socket\n        return None\n'}, {'file': 'ipv8/messaging/anonymization/community.py', 'old': 'from asyncio import', 'new': 'from contextlib import suppress\nfrom asyncio import'}]},
+    {'name': 'helper object shuts the task manager down before it removes the listener', 'rule': 'super-chain', 'edits': [{'file': 'ipv8/overlay.py', 'old': '        self.endpoint.remove_listener(self)\n        await self.shutdown_task_manager()', 'new': '        await _Detach(self.endpoint, self)()'}, {'file': 'ipv8/overlay.py', 'old': 'class Overlay(', 'new': 'class _Detach:\n    """\n    Take an overlay off its endpoint and stop its tasks.\n    """\n\n    def __init__(self, endpoint: Endpoint, overlay: Overlay) -> None:\n        self.endpoint = endpoint\n        self.overlay = overlay\n\n    async def __call__(self) -> None:\n        await self.overlay.shutdown_task_manager()\n        self.endpoint.remove_listener(self.overlay)\n\n\nclass Overlay('}]},
+    {'name': 'unload helper closes the database before super().unload()', 'rule': 'sockets', 'edits': [{'file': 'ipv8/attestation/wallet/community.py', 'old': '        await self.request_cache.shutdown()\n\n        await super().unload()\n        # Close the database after we stop accepting requests.\n        self.database.close()', 'new': '        await self._unload_then_close()\n\n    async def _unload_then_close(self) -> None:\n        try:\n            self.database.close()\n            await self.request_cache.shutdown()\n            await super().unload()\n        finally:\n            pass'}]},
+    {'name': 'unload helper shuts the request cache down after super().unload()', 'rule': 'request-cache', 'edits': [{'file': 'ipv8/attestation/wallet/community.py', 'old': '        await self.request_cache.shutdown()\n\n        await super().unload()\n        # Close the database after we stop accepting requests.\n        self.database.close()', 'new': '        await self._unload_then_close()\n\n    async def _unload_then_close(self) -> None:\n        try:\n            await super().unload()\n            await self.request_cache.shutdown()\n        finally:\n            pass\n        # Close the database after we stop accepting requests.\n        self.database.close()'}]},
+    {'name': 'methodcaller pipeline unloads only the first bootstrapper', 'rule': 'super-chain', 'edits': [{'file': 'ipv8/community.py', 'old': '        while self.bootstrappers:\n            bootstrapper = self.bootstrappers.pop()\n            bootstrapper.unload()\n', 'new': '        bootstrappers, self.bootstrappers = self.bootstrappers, []\n        for _ in map(methodcaller("unload"), islice(reversed(bootstrappers), 1)):\n            pass\n'}, {'file': 'ipv8/community.py', 'old': 'from asyncio import', 'new': 'from operator import methodcaller\nfrom asyncio import'}]},
+    {'name': 'release helper with its own None-guard also returns early for sockets that are not enabled', 'rule': 'released-on-removal', 'edits': [{'file': 'ipv8/messaging/anonymization/community.py', 'old': '        exit_socket = self.exit_sockets.pop(circuit_id, None)\n        if exit_socket:\n            # Close socket\n            if exit_socket.enabled:\n                await exit_socket.close()\n            await exit_socket.shutdown_task_manager()\n        return exit_socket\n', 'new': '        exit_socket = self.exit_sockets.pop(circuit_id, None)\n        for sock in (exit_socket,):\n            await self._retire(sock)\n        return exit_socket\n\n    async def _retire(self, exit_socket: TunnelExitSocket | None) -> None:\n        try:\n            if exit_socket is None or not exit_socket.enabled:\n                return\n            # Close socket\n            if exit_socket.enabled:\n                await exit_socket.close()\n            await exit_socket.shutdown_task_manager()\n        finally:\n            pass\n'}]},
+    {'name': 'match on (shutdown, active) tuple lets an active name through', 'rule': 'taskmanager-gates', 'edits': [{'file': 'ipv8/taskmanager.py', 'old': '            if self._shutdown:\n                self._logger.warning("Not adding task %s due to shutdown!", str(user_task))\n                if isinstance(user_task, (Task, Future)) and not user_task.done():\n                    user_task.cancel()\n                # We need to return an awaitable in case the caller awaits the output of register_task.\n                return succeed(None)\n\n            if self.is_pending_task_active(name):\n                msg = f"Task already exists: \'{name}\'"\n                raise RuntimeError(msg)\n', 'new': '            match (self._shutdown, self.is_pending_task_active(name)):\n                case (True, _):\n                    self._logger.warning("Not adding task %s due to shutdown!", str(user_task))\n                    if isinstance(user_task, (Task, Future)) and not user_task.done():\n                        user_task.cancel()\n                    # We need to return an awaitable in case the caller awaits the output of register_task.\n                    return succeed(None)\n                case (False, False):\n                    msg = f"Task already exists: \'{name}\'"\n                    raise RuntimeError(msg)\n'}]},
+    {'name': 'IntEnum admission helper reports a running name as open', 'rule': 'taskmanager-gates', 'edits': [{'file': 'ipv8/taskmanager.py', 'old': '            if self._shutdown:\n                self._logger.warning("Not adding task %s due to shutdown!", str(user_task))\n                if isinstance(user_task, (Task, Future)) and not user_task.done():\n                    user_task.cancel()\n                # We need to return an awaitable in case the caller awaits the output of register_task.\n                return succeed(None)\n\n            if self.is_pending_task_active(name):\n                msg = f"Task already exists: \'{name}\'"\n                raise RuntimeError(msg)\n', 'new': '            state = self._admit(name)\n            if state == _Gate.CLOSED:\n                self._logger.warning("Not adding task %s due to shutdown!", str(user_task))\n                if isinstance(user_task, (Task, Future)) and not user_task.done():\n                    user_task.cancel()\n                # We need to return an awaitable in case the caller awaits the output of register_task.\n                return succeed(None)\n            if state == _Gate.TAKEN:\n                msg = f"Task already exists: \'{name}\'"\n                raise RuntimeError(msg)\n'}, {'file': 'ipv8/taskmanager.py', 'old': '    def register_anonymous_task(', 'new': '    def _admit(self, name: Hashable) -> int:\n        if self._shutdown:\n            return _Gate.CLOSED\n        if name in self._pending_tasks and not self._pending_tasks[name].done():\n            return _Gate.OPEN\n        return _Gate.OPEN\n\n    def register_anonymous_task('}, {'file': 'ipv8/taskmanager.py', 'old': 'class TaskManager:', 'new': 'class _Gate(IntEnum):\n    OPEN = 0\n    CLOSED = 1\n    TAKEN = 2\n\n\nclass TaskManager:'}, {'file': 'ipv8/taskmanager.py', 'old': 'from functools import wraps', 'new': 'from enum import IntEnum\nfrom functools import wraps'}]},
+    {'name': "dataclass handover object is fired directly instead of from the old task's done-callback", 'rule': 'taskmanager-gates', 'edits': [{'file': 'ipv8/taskmanager.py', 'old': '        new_task: Future = Future()\n\n        def cancel_cb(_: Any) -> None:  # noqa: ANN401\n            try:\n                new_task.set_result(self.register_task(name, *args, **kwargs))\n            except Exception as e:\n                new_task.set_exception(e)\n\n        old_task = self.cancel_pending_task(name)\n        old_task.add_done_callback(cancel_cb)\n        return new_task\n', 'new': '        handover = _Handover(self, name, args, kwargs, Future())\n        self.cancel_pending_task(name)\n        handover.fire(None)\n        return handover.outcome\n'}, {'file': 'ipv8/taskmanager.py', 'old': 'class TaskManager:', 'new': '@dataclass\nclass _Handover:\n    manager: TaskManager\n    name: Hashable\n    args: tuple\n    kwargs: dict\n    outcome: Future\n\n    def fire(self, _: Any) -> None:  # noqa: ANN401\n        try:\n            self.outcome.set_result(self._start())\n        except Exception as e:\n            self.outcome.set_exception(e)\n\n    def _start(self) -> Future:\n        return self.manager.register_task(self.name, *self.args, **self.kwargs)\n\n\nclass TaskManager:'}, {'file': 'ipv8/taskmanager.py', 'old': 'from contextlib import suppress', 'new': 'from contextlib import suppress\nfrom dataclasses import dataclass'}]},
+    {'name': '_deliver_later match on (open, prefix, generic) delivers on a closed endpoint', 'rule': 'taskmanager-gates', 'edits': [{'file': 'ipv8/messaging/interfaces/endpoint.py', 'old': '        if self.is_open() and (packet[1][:self.prefixlen] in self._prefix_map or listener in self._listeners):\n            listener.on_packet(packet)\n', 'new': '        match (self.is_open(), packet[1][:self.prefixlen] in self._prefix_map, listener in self._listeners):\n            case (True, True, _) | (_, _, True):\n                listener.on_packet(packet)\n'}]},
+    {'name': 'record rows (NamedTuple stages) pair the exit socket remover with the relay table', 'rule': 'sockets', 'edits': [{'file': 'ipv8/messaging/anonymization/community.py', 'old': '        removals = []\n        for circuit_id in list(self.circuits.keys()):\n            removals.append(self.remove_circuit(circuit_id, "unload", remove_now=True, destroy=DESTROY_REASON_SHUTDOWN))\n        for circuit_id in list(self.relay_from_to.keys()):\n            removals.append(self.remove_relay(circuit_id, "unload", remove_now=True, destroy=DESTROY_REASON_SHUTDOWN))\n        for circuit_id in list(self.exit_sockets.keys()):\n            removals.append(self.remove_exit_socket(circuit_id, "unload", remove_now=True,\n                                                    destroy=DESTROY_REASON_SHUTDOWN))\n', 'new': '        removals = []\n        for stage in (_Stage(self.circuits, self.remove_circuit), _Stage(self.relay_from_to, self.remove_relay),\n                      _Stage(table=self.relay_from_to, remover=self.remove_exit_socket)):\n            removals.extend(stage.remover(circuit_id, "unload", remove_now=True, destroy=DESTROY_REASON_SHUTDOWN)\n                            for circuit_id in list(stage.table))\n'}, {'file': 'ipv8/messaging/anonymization/community.py', 'old': 'class TunnelCommunity(', 'new': 'class _Stage(NamedTuple):\n    table: dict\n    remover: Callable\n\n\nclass TunnelCommunity('}, {'file': 'ipv8/messaging/anonymization/community.py', 'old': 'from typing import TYPE_CHECKING, cast', 'new': 'from typing import TYPE_CHECKING, NamedTuple, cast'}]},
+    {'name': 'Enum-keyed remover dispatch applies the relay remover to the exit sockets', 'rule': 'sockets', 'edits': [{'file': 'ipv8/messaging/anonymization/community.py', 'old': '        removals = []\n        for circuit_id in list(self.circuits.keys()):\n            removals.append(self.remove_circuit(circuit_id, "unload", remove_now=True, destroy=DESTROY_REASON_SHUTDOWN))\n        for circuit_id in list(self.relay_from_to.keys()):\n            removals.append(self.remove_relay(circuit_id, "unload", remove_now=True, destroy=DESTROY_REASON_SHUTDOWN))\n        for circuit_id in list(self.exit_sockets.keys()):\n            removals.append(self.remove_exit_socket(circuit_id, "unload", remove_now=True,\n                                                    destroy=DESTROY_REASON_SHUTDOWN))\n', 'new': '        removers = {_Kind.CIRCUIT: self.remove_circuit, _Kind.RELAY: self.remove_relay, _Kind.EXIT: self.remove_exit_socket}\n        removals = []\n        for kind, table in ((_Kind.CIRCUIT, self.circuits), (_Kind.RELAY, self.relay_from_to), (_Kind.RELAY, self.exit_sockets)):\n            for circuit_id in list(table):\n                removals.append(removers[kind](circuit_id, "unload", remove_now=True, destroy=DESTROY_REASON_SHUTDOWN))\n'}, {'file': 'ipv8/messaging/anonymization/community.py', 'old': 'class TunnelCommunity(', 'new': 'class _Kind(Enum):\n    CIRCUIT = 1\n    RELAY = 2\n    EXIT = 3\n\n\nclass TunnelCommunity('}, {'file': 'ipv8/messaging/anonymization/community.py', 'old': 'from asyncio import', 'new': 'from enum import Enum\nfrom asyncio import'}]},
+    {'name': 'partial() spawner does not register the future', 'rule': 'tracked-background-work', 'edits': [{'file': 'ipv8/community.py', 'old': '                    self.register_anonymous_task("on_packet", ensure_future(aw_result), ignore=(Exception,))', 'new': '                    spawn = partial(self.logger.debug, "on_packet %s")\n                    spawn(ensure_future(aw_result))'}, {'file': 'ipv8/community.py', 'old': 'from asyncio import', 'new': 'from functools import partial\nfrom asyncio import'}]},
+    {'name': 'runner wraps the partial step in ensure_future', 'rule': 'tracked-background-work', 'edits': [{'file': 'ipv8/taskmanager.py', 'old': '    await sleep(delay)\n    while True:\n        await interval_task(*args)\n        await sleep(interval)\n', 'new': '    step = partial(interval_task, *args)\n    for pause in chain((delay,), repeat(interval)):\n        await sleep(pause)\n        await ensure_future(step())\n'}, {'file': 'ipv8/taskmanager.py', 'old': 'from functools import wraps', 'new': 'from functools import partial, wraps\nfrom itertools import chain, repeat'}]},
 ]
